@@ -30,6 +30,7 @@ def Fc : Expr → Bool
     (seq || decide ((bs.map (·.1)).Nodup)) && !body.isEmpty && FcBinds bs && FcList body
   | .call (.sym h) args => foBuiltins.contains h && FcList args
   | .arr es => FcList es
+  | .for_ _ init test incr body => Fc init && Fc test && Fc incr && FcList body
   | _ => false
 def FcList : List Expr → Bool
   | [] => true
@@ -46,9 +47,9 @@ end
 
 def SimC (code : List Instr) (s : St) (rs : Ref.St) (env : Nat) (res : Ref.R Val) : Prop :=
   match res with
-  | .ok v rs' => ∃ s', ReachE code.length s s' ∧ Lands code.length v s s' ∧ RelC s' rs' env ∧ FramesExt rs rs'
-      ∧ Frame s s'
-  | .err rs' => FailsE code.length s rs'.trace
+  | .ok v rs' => ∃ s', ReachX s s' ∧ Lands code.length v s s' ∧ RelC s' rs' env ∧ FramesExt rs rs'
+      ∧ Frame s s' ∧ Clean v
+  | .err rs' => FailsX s rs'.trace
   | .timeout => True
   | .brk _ _ => False
   | .cont _ _ => False
@@ -56,9 +57,9 @@ def SimC (code : List Instr) (s : St) (rs : Ref.St) (env : Nat) (res : Ref.R Val
 /-- code that leaves no value (the bindings of `letseq`) -/
 def SimCU (code : List Instr) (s : St) (rs : Ref.St) (env : Nat) (res : Ref.R Unit) : Prop :=
   match res with
-  | .ok _ rs' => ∃ s', ReachE code.length s s' ∧ Moved code.length s s' ∧ RelC s' rs' env ∧ FramesExt rs rs'
+  | .ok _ rs' => ∃ s', ReachX s s' ∧ Moved code.length s s' ∧ RelC s' rs' env ∧ FramesExt rs rs'
       ∧ Frame s s'
-  | .err rs' => FailsE code.length s rs'.trace
+  | .err rs' => FailsX s rs'.trace
   | .timeout => True
   | .brk _ _ => False
   | .cont _ _ => False
@@ -66,10 +67,10 @@ def SimCU (code : List Instr) (s : St) (rs : Ref.St) (env : Nat) (res : Ref.R Un
 /-- code that pushes a list of values, first value deepest (the initialisers of `let`) -/
 def SimCL (code : List Instr) (s : St) (rs : Ref.St) (env : Nat) (res : Ref.R (List Val)) : Prop :=
   match res with
-  | .ok vs rs' => ∃ s', ReachE code.length s s' ∧ fnOf s' s'.curfunc = fnOf s s.curfunc
+  | .ok vs rs' => ∃ s', ReachX s s' ∧ fnOf s' s'.curfunc = fnOf s s.curfunc
       ∧ s'.pc = s.pc + (code.length : Int) ∧ s'.data = vs.reverse.map some ++ s.data
-      ∧ RelC s' rs' env ∧ FramesExt rs rs' ∧ Frame s s'
-  | .err rs' => FailsE code.length s rs'.trace
+      ∧ RelC s' rs' env ∧ FramesExt rs rs' ∧ Frame s s' ∧ ∀ v ∈ vs, Clean v
+  | .err rs' => FailsX s rs'.trace
   | .timeout => True
   | .brk _ _ => False
   | .cont _ _ => False
@@ -119,6 +120,7 @@ def CClaimA (n : Nat) : Prop :=
     match Ref.evalArgs n args i (fun _ => false) env rs with
     | .ok vs rs' => ∃ M s', (∀ fuel, M ≤ fuel → (prepareArgs fuel none i args).run s = (.ok (), s'))
         ∧ s'.data = vs.reverse.map some ++ s.data ∧ s'.pc = s.pc ∧ RelC s' rs' env ∧ FramesExt rs rs' ∧ Frame s s'
+        ∧ ∀ v ∈ vs, Clean v
     | .err rs' => ∃ M, ∀ fuel, M ≤ fuel → ∃ se, (prepareArgs fuel none i args).run s = (.error .err, se)
         ∧ se.trace = rs'.trace
     | .timeout => True
@@ -129,18 +131,107 @@ def CClaimA (n : Nat) : Prop :=
 
 theorem foBuiltins_ne_empty : ∀ h ∈ foBuiltins, h ≠ "" := by decide
 
+/-- what compiling leaves of the generator state: function table, live stack and compile-time loop
+stack as before; loop records only appended -/
+structure GExt (gs gs' : GS) : Prop where
+  fns : gs'.fns = gs.fns
+  stack : gs'.loopstack = gs.loopstack
+  len : gs.loops.length ≤ gs'.loops.length
+  loops : ∀ id, id < gs.loops.length → gs'.loops.getD id {} = gs.loops.getD id {}
+
+theorem GExt.refl (gs : GS) : GExt gs gs := ⟨rfl, rfl, Nat.le_refl _, fun _ _ => rfl⟩
+
+theorem GExt.trans {a b c : GS} (h₁ : GExt a b) (h₂ : GExt b c) : GExt a c :=
+  ⟨h₂.fns.trans h₁.fns, h₂.stack.trans h₁.stack, Nat.le_trans h₁.len h₂.len,
+   fun id hid => (h₂.loops id (Nat.lt_of_lt_of_le hid h₁.len)).trans (h₁.loops id hid)⟩
+
+/-- the generator state inside a `for`: a fresh loop record, pushed on the compile-time loop stack -/
+def forGs (gs : GS) (c : Ctx) (label : Option String) : GS :=
+  { gs with loops := gs.loops ++ [({ label, scopeDepth := c.scopes } : LoopRec)], loopstack := gs.loops.length :: gs.loopstack }
+
+/-- the generator state after a `for`: offsets stored, loop stack popped -/
+def forDone (g5 : GS) (loop : Nat) (brk cont : Int) : GS :=
+  { g5 with loopstack := g5.loopstack.drop 1,
+            loops := g5.loops.set loop ({ (g5.loops.getD loop {}) with breakOff := brk, contOff := cont } : LoopRec) }
+
+/-- a whole `for`: the record is pushed, the parts only append, the record is completed and popped -/
+theorem GExt.for_ {gs g5 : GS} {c : Ctx} {label : Option String} {brk cont : Int} (h : GExt (forGs gs c label) g5) :
+    GExt gs (forDone g5 gs.loops.length brk cont) := by
+  refine ⟨h.fns, ?_, ?_, fun id hid => ?_⟩
+  · show g5.loopstack.drop 1 = gs.loopstack
+    rw [h.stack]; rfl
+  · show gs.loops.length ≤ (g5.loops.set _ _).length
+    have := h.len
+    simp only [forGs, List.length_append, List.length_cons, List.length_nil, List.length_set] at this ⊢
+    omega
+  · show (g5.loops.set gs.loops.length _).getD id {} = _
+    have hne : gs.loops.length ≠ id := by omega
+    rw [List.getD_eq_getElem?_getD, List.getElem?_set_ne hne, ← List.getD_eq_getElem?_getD,
+      h.loops id (by simp [forGs]; omega)]
+    simp only [forGs, List.getD_eq_getElem?_getD, List.getElem?_append_left hid]
+
+/-- the code of a `for` loop, from the code of its four parts -/
+def forCode (loop : Nat) (i t s b : List Instr) : List Instr :=
+  (asmFor loop (i ++ [.popUntilMark loop]) t (s ++ [.popUntilMark loop]) (b ++ [.popUntilMark loop])).1
+
+/-- `GenerateForLoop`, with the state threading spelled out: body, init, test, increment are compiled
+in this order with the loop on the compile-time loop stack; then the offsets are stored. -/
+theorem compile_for_eq (isFn : Nat → Bool) (c : Ctx) (label : Option String) (init test incr : Expr) (body : List Expr) (gs : GS) :
+    (compile isFn c (.for_ label init test incr body)).run gs =
+      match (compileBegin isFn { c with tail := false, scopes := c.scopes + 1 } body).run (forGs gs c label) with
+      | .error _ => .error ()
+      | .ok (rb, g2) => match (compile isFn { c with tail := false, scopes := c.scopes + 1 } init).run g2 with
+        | .error _ => .error ()
+        | .ok (ri, g3) => match (compile isFn { c with tail := false, scopes := c.scopes + 1 } test).run g3 with
+          | .error _ => .error ()
+          | .ok (rt, g4) => match (compile isFn { c with tail := false, scopes := c.scopes + 1 } incr).run g4 with
+            | .error _ => .error ()
+            | .ok (rs, g5) =>
+              .ok ((forCode gs.loops.length ri.1 rt.1 rs.1 rb.1, c.tail),
+                   forDone g5 gs.loops.length
+                     (asmFor gs.loops.length (ri.1 ++ [.popUntilMark gs.loops.length]) rt.1
+                      (rs.1 ++ [.popUntilMark gs.loops.length]) (rb.1 ++ [.popUntilMark gs.loops.length])).2.1
+                     (asmFor gs.loops.length (ri.1 ++ [.popUntilMark gs.loops.length]) rt.1
+                      (rs.1 ++ [.popUntilMark gs.loops.length]) (rb.1 ++ [.popUntilMark gs.loops.length])).2.2) := by
+  rw [compile]
+  simp only [bind, StateT.bind, StateT.run, get, getThe, MonadStateOf.get, StateT.get, pure, Except.pure, Except.bind,
+    set, StateT.set, StateT.pure]
+  unfold forGs forDone forCode
+  cases compileBegin isFn { scopes := c.scopes + 1, funcname := c.funcname, known := c.known } body
+      { fns := gs.fns, loops := gs.loops ++ [{ label := label, scopeDepth := c.scopes }],
+        loopstack := gs.loops.length :: gs.loopstack, live := gs.live } with
+  | error e => rfl
+  | ok vb =>
+    obtain ⟨rb, g2⟩ := vb
+    simp only
+    cases compile isFn { scopes := c.scopes + 1, funcname := c.funcname, known := c.known } init g2 with
+    | error e => rfl
+    | ok vi =>
+      obtain ⟨ri, g3⟩ := vi
+      simp only
+      cases compile isFn { scopes := c.scopes + 1, funcname := c.funcname, known := c.known } test g3 with
+      | error e => rfl
+      | ok vt =>
+        obtain ⟨rt, g4⟩ := vt
+        simp only
+        cases compile isFn { scopes := c.scopes + 1, funcname := c.funcname, known := c.known } incr g4 with
+        | error e => rfl
+        | ok vs =>
+          obtain ⟨rs, g5⟩ := vs
+          rfl
+
 mutual
 theorem compile_total_Fc : ∀ (e : Expr), Fc e = true → ∀ isFn c gs, c.funcname = "" →
-    ∃ code t, (compile isFn c e).run gs = .ok ((code, t), gs) ∧ code ≠ []
-  | .int v, _, isFn, c, gs, hfn => ⟨_, _, by rw [compile]; rfl, by simp⟩
-  | .bool v, _, isFn, c, gs, hfn => ⟨_, _, by rw [compile]; rfl, by simp⟩
-  | .str v, _, isFn, c, gs, hfn => ⟨_, _, by rw [compile]; rfl, by simp⟩
-  | .nilLit, _, isFn, c, gs, hfn => ⟨_, _, by rw [compile]; rfl, by simp⟩
-  | .sym x, _, isFn, c, gs, hfn => ⟨_, _, by rw [compile]; rfl, by simp⟩
+    ∃ code t gs', (compile isFn c e).run gs = .ok ((code, t), gs') ∧ code ≠ [] ∧ GExt gs gs'
+  | .int v, _, isFn, c, gs, hfn => ⟨_, _, gs, by rw [compile]; rfl, by simp, GExt.refl _⟩
+  | .bool v, _, isFn, c, gs, hfn => ⟨_, _, gs, by rw [compile]; rfl, by simp, GExt.refl _⟩
+  | .str v, _, isFn, c, gs, hfn => ⟨_, _, gs, by rw [compile]; rfl, by simp, GExt.refl _⟩
+  | .nilLit, _, isFn, c, gs, hfn => ⟨_, _, gs, by rw [compile]; rfl, by simp, GExt.refl _⟩
+  | .sym x, _, isFn, c, gs, hfn => ⟨_, _, gs, by rw [compile]; rfl, by simp, GExt.refl _⟩
   | .begin_ es, he, isFn, c, gs, hfn => by
     rw [Fc] at he
     cases es with
-    | nil => exact ⟨[.push .nil], c.tail, by rw [compile]; rfl, by simp⟩   -- (begin) yields nil (fix C04-02)
+    | nil => exact ⟨[.push .nil], c.tail, gs, by rw [compile]; rfl, by simp, GExt.refl _⟩   -- (begin) yields nil (fix C04-02)
     | cons e0 es0 =>
       rw [compile]
       · exact compileBegin_total_Fc (e0 :: es0) (by simp) he isFn c gs hfn
@@ -148,47 +239,47 @@ theorem compile_total_Fc : ∀ (e : Expr), Fc e = true → ∀ isFn c gs, c.func
   | .def_ x e, he, isFn, c, gs, hfn => by
     rw [Fc] at he
     simp only [Bool.and_eq_true] at he
-    obtain ⟨ce, t, h1, _⟩ := compile_total_Fc e he.2 isFn { c with tail := false } gs hfn
-    refine ⟨ce ++ [.dup, .popStackPutEnv x], false, ?_, by simp⟩
+    obtain ⟨ce, t, g1, h1, _, hf1⟩ := compile_total_Fc e he.2 isFn { c with tail := false } gs hfn
+    refine ⟨ce ++ [.dup, .popStackPutEnv x], false, g1, ?_, by simp, hf1⟩
     rw [compile]
     simp only [g_bind_ok, g_pure_ok]
     exact ⟨_, _, h1, rfl⟩
   | .set_ x e, he, isFn, c, gs, hfn => by
     rw [Fc] at he
     simp only [Bool.and_eq_true] at he
-    obtain ⟨ce, t, h1, _⟩ := compile_total_Fc e he.2 isFn { c with tail := false } gs hfn
-    refine ⟨ce ++ [.dup, .update x], false, ?_, by simp⟩
+    obtain ⟨ce, t, g1, h1, _, hf1⟩ := compile_total_Fc e he.2 isFn { c with tail := false } gs hfn
+    refine ⟨ce ++ [.dup, .update x], false, g1, ?_, by simp, hf1⟩
     rw [compile]
     simp only [g_bind_ok, g_pure_ok]
     exact ⟨_, _, h1, rfl⟩
   | .cond arms d, he, isFn, c, gs, hfn => by
     rw [Fc] at he
     simp only [Bool.and_eq_true] at he
-    obtain ⟨dc, t, hd, hdne⟩ := compile_total_Fc d he.2 isFn c gs hfn
-    obtain ⟨as, has⟩ := compileArms_total_Fc arms he.1 isFn c gs hfn
-    refine ⟨asmCond as dc, c.tail, ?_, asmCond_ne_nil as dc hdne⟩
+    obtain ⟨dc, t, g1, hd, hdne, hf1⟩ := compile_total_Fc d he.2 isFn c gs hfn
+    obtain ⟨as, g2, has, hf2⟩ := compileArms_total_Fc arms he.1 isFn c g1 hfn
+    refine ⟨asmCond as dc, c.tail, g2, ?_, asmCond_ne_nil as dc hdne, hf1.trans hf2⟩
     rw [compile]
     simp only [g_bind_ok, g_pure_ok]
     exact ⟨_, _, hd, _, _, has, rfl⟩
   | .and_ es, he, isFn, c, gs, hfn => by
     rw [Fc] at he
-    obtain ⟨cs, hcs, hne⟩ := compileSC_total_Fc es he isFn c gs hfn
-    refine ⟨asmSC false cs, c.tail, ?_, asmSC_ne_nil false cs hne⟩
+    obtain ⟨cs, g1, hcs, hne, hf1⟩ := compileSC_total_Fc es he isFn c gs hfn
+    refine ⟨asmSC false cs, c.tail, g1, ?_, asmSC_ne_nil false cs hne, hf1⟩
     rw [compile]
     simp only [g_bind_ok, g_pure_ok]
     exact ⟨_, _, hcs, rfl⟩
   | .or_ es, he, isFn, c, gs, hfn => by
     rw [Fc] at he
-    obtain ⟨cs, hcs, hne⟩ := compileSC_total_Fc es he isFn c gs hfn
-    refine ⟨asmSC true cs, c.tail, ?_, asmSC_ne_nil true cs hne⟩
+    obtain ⟨cs, g1, hcs, hne, hf1⟩ := compileSC_total_Fc es he isFn c gs hfn
+    refine ⟨asmSC true cs, c.tail, g1, ?_, asmSC_ne_nil true cs hne, hf1⟩
     rw [compile]
     simp only [g_bind_ok, g_pure_ok]
     exact ⟨_, _, hcs, rfl⟩
   | .newScope es, he, isFn, c, gs, hfn => by
     rw [Fc] at he
     simp only [Bool.and_eq_true, Bool.not_eq_true', List.isEmpty_eq_false_iff] at he
-    obtain ⟨code, t, h1, _⟩ := compileNewScope_total_Fc es he.1 he.2 isFn { c with scopes := c.scopes + 1 } c.tail gs hfn
-    refine ⟨[.addScope] ++ code ++ [.removeScope], t, ?_, by simp⟩
+    obtain ⟨code, t, g1, h1, _, hf1⟩ := compileNewScope_total_Fc es he.1 he.2 isFn { c with scopes := c.scopes + 1 } c.tail gs hfn
+    refine ⟨[.addScope] ++ code ++ [.removeScope], t, g1, ?_, by simp, hf1⟩
     cases es with
     | nil => exact absurd rfl he.1
     | cons e es =>
@@ -201,10 +292,10 @@ theorem compile_total_Fc : ∀ (e : Expr), Fc e = true → ∀ isFn c gs, c.func
     simp only [Bool.and_eq_true, Bool.not_eq_true', List.isEmpty_eq_false_iff] at he
     obtain ⟨⟨⟨_, hbody⟩, hbs⟩, hbl⟩ := he
     -- since fix C04-08 the initialisers are compiled with the tail flag off, the body with the form's own flag
-    obtain ⟨rhs, t1, h1⟩ := compileBinds_total_Fc bs hbs isFn { c with scopes := c.scopes + 1, tail := false } seq gs hfn
-    obtain ⟨b, t2, h2, _⟩ := compileBegin_total_Fc body hbody hbl isFn { c with scopes := c.scopes + 1 } gs hfn
+    obtain ⟨rhs, t1, g1, h1, hf1⟩ := compileBinds_total_Fc bs hbs isFn { c with scopes := c.scopes + 1, tail := false } seq gs hfn
+    obtain ⟨b, t2, g2, h2, _, hf2⟩ := compileBegin_total_Fc body hbody hbl isFn { c with scopes := c.scopes + 1 } g1 hfn
     refine ⟨[.addScope] ++ rhs ++ (if seq then [] else (bs.map (fun p => Instr.popStackPutEnv p.1)).reverse)
-      ++ b ++ [.removeScope], t2, ?_, by simp⟩
+      ++ b ++ [.removeScope], t2, g2, ?_, by simp, hf1.trans hf2⟩
     rw [compile]
     simp only [g_bind_ok, g_pure_ok]
     exact ⟨_, _, h1, _, _, h2, rfl⟩
@@ -213,7 +304,7 @@ theorem compile_total_Fc : ∀ (e : Expr), Fc e = true → ∀ isFn c gs, c.func
     | sym h =>
       rw [Fc] at he
       simp only [Bool.and_eq_true, List.contains_iff_mem] at he
-      refine ⟨[.callExpr (.sym h) args], c.tail, ?_, by simp⟩
+      refine ⟨[.callExpr (.sym h) args], c.tail, gs, ?_, by simp, GExt.refl _⟩
       rw [compile]
       have hne : (h == c.funcname) = false := by
         rw [hfn]; have := foBuiltins_ne_empty h he.1; simpa using this
@@ -222,16 +313,40 @@ theorem compile_total_Fc : ∀ (e : Expr), Fc e = true → ∀ isFn c gs, c.func
     | _ => simp [Fc] at he
   | .arr es, he, isFn, c, gs, hfn => by
     rw [Fc] at he
-    obtain ⟨code, t, h1⟩ := compileAll_total_Fc es he isFn { c with tail := false } gs hfn
-    refine ⟨code ++ [.callArr es.length], c.tail, ?_, by simp⟩
+    obtain ⟨code, t, g1, h1, hf1⟩ := compileAll_total_Fc es he isFn { c with tail := false } gs hfn
+    refine ⟨code ++ [.callArr es.length], c.tail, g1, ?_, by simp, hf1⟩
     rw [compile]
     simp only [g_bind_ok, g_pure_ok]
     exact ⟨_, _, h1, rfl⟩
-  | .for_ _ _ _ _ _, he, _, _, _, _ | .break_ _, he, _, _, _, _ | .continue_ _, he, _, _, _, _
+  | .for_ label init test incr body, he, isFn, c, gs, hfn => by
+    rw [Fc] at he
+    simp only [Bool.and_eq_true] at he
+    obtain ⟨⟨⟨hi, ht⟩, hs⟩, hb⟩ := he
+    obtain ⟨b, tb, g2, h2, hf2⟩ := compileBeginAny_total_Fc body hb isFn { c with tail := false, scopes := c.scopes + 1 }
+      (forGs gs c label) hfn
+    obtain ⟨i, ti, g3, h3, _, hf3⟩ := compile_total_Fc init hi isFn { c with tail := false, scopes := c.scopes + 1 } g2 hfn
+    obtain ⟨t, tt, g4, h4, _, hf4⟩ := compile_total_Fc test ht isFn { c with tail := false, scopes := c.scopes + 1 } g3 hfn
+    obtain ⟨s, ts, g5, h5, _, hf5⟩ := compile_total_Fc incr hs isFn { c with tail := false, scopes := c.scopes + 1 } g4 hfn
+    refine ⟨forCode gs.loops.length i t s b, c.tail,
+      forDone g5 gs.loops.length
+        (asmFor gs.loops.length (i ++ [.popUntilMark gs.loops.length]) t
+          (s ++ [.popUntilMark gs.loops.length]) (b ++ [.popUntilMark gs.loops.length])).2.1
+        (asmFor gs.loops.length (i ++ [.popUntilMark gs.loops.length]) t
+          (s ++ [.popUntilMark gs.loops.length]) (b ++ [.popUntilMark gs.loops.length])).2.2,
+      ?_, by simp [forCode, asmFor], ?_⟩
+    · rw [compile_for_eq, h2]
+      simp only
+      rw [h3]
+      simp only
+      rw [h4]
+      simp only
+      rw [h5]
+    · exact GExt.for_ (((hf2.trans hf3).trans hf4).trans hf5)
+  | .break_ _, he, _, _, _, _ | .continue_ _, he, _, _, _, _
   | .fn _ _ _, he, _, _, _, _ | .defn _ _ _ _, he, _, _, _, _ | .assign _ _, he, _, _, _, _ | .bad _, he, _, _, _, _ => by
     simp [Fc] at he
 theorem compileBegin_total_Fc : ∀ (es : List Expr), es ≠ [] → FcList es = true → ∀ isFn c gs, c.funcname = "" →
-    ∃ code t, (compileBegin isFn c es).run gs = .ok ((code, t), gs) ∧ code ≠ []
+    ∃ code t gs', (compileBegin isFn c es).run gs = .ok ((code, t), gs') ∧ code ≠ [] ∧ GExt gs gs'
   | [], hne, _, _, _, _, _ => absurd rfl hne
   | [e], _, he, isFn, c, gs, hfn => by
     rw [FcList] at he
@@ -241,30 +356,37 @@ theorem compileBegin_total_Fc : ∀ (es : List Expr), es ≠ [] → FcList es = 
   | e :: e' :: es, _, he, isFn, c, gs, hfn => by
     rw [FcList] at he
     simp only [Bool.and_eq_true] at he
-    obtain ⟨a, ta, ha, hane⟩ := compile_total_Fc e he.1 isFn { c with tail := false } gs hfn
-    obtain ⟨b, tb, hb, _⟩ := compileBegin_total_Fc (e' :: es) (by simp) he.2 isFn c gs hfn
-    refine ⟨a ++ (if a.isEmpty then [] else [.pop]) ++ b, tb, ?_, by simp [hane]⟩
+    obtain ⟨a, ta, g1, ha, hane, hf1⟩ := compile_total_Fc e he.1 isFn { c with tail := false } gs hfn
+    obtain ⟨b, tb, g2, hb, _, hf2⟩ := compileBegin_total_Fc (e' :: es) (by simp) he.2 isFn c g1 hfn
+    refine ⟨a ++ (if a.isEmpty then [] else [.pop]) ++ b, tb, g2, ?_, by simp [hane], hf1.trans hf2⟩
     rw [compileBegin]
     · simp only [g_bind_ok, g_pure_ok]
       exact ⟨_, _, ha, _, _, hb, rfl⟩
     · intro hh; cases hh
+/-- a statement list that may be empty (the body of a `for`) -/
+theorem compileBeginAny_total_Fc : ∀ (es : List Expr), FcList es = true → ∀ isFn c gs, c.funcname = "" →
+    ∃ code t gs', (compileBegin isFn c es).run gs = .ok ((code, t), gs') ∧ GExt gs gs'
+  | [], _, isFn, c, gs, _ => ⟨[], false, gs, by rw [compileBegin]; rfl, GExt.refl _⟩
+  | e :: es, he, isFn, c, gs, hfn => by
+    obtain ⟨code, t, g1, h1, _, hf1⟩ := compileBegin_total_Fc (e :: es) (by simp) he isFn c gs hfn
+    exact ⟨code, t, g1, h1, hf1⟩
 theorem compileSC_total_Fc : ∀ (es : List Expr), FcList es = true → ∀ isFn c gs, c.funcname = "" →
-    ∃ cs, (compileSC isFn c es).run gs = .ok (cs, gs) ∧ ∀ c ∈ cs, c ≠ []
-  | [], _, isFn, c, gs, hfn => ⟨[], by rw [compileSC]; rfl, by simp⟩
+    ∃ cs gs', (compileSC isFn c es).run gs = .ok (cs, gs') ∧ (∀ c ∈ cs, c ≠ []) ∧ GExt gs gs'
+  | [], _, isFn, c, gs, hfn => ⟨[], gs, by rw [compileSC]; rfl, by simp, GExt.refl _⟩
   | [e], he, isFn, c, gs, hfn => by
     rw [FcList] at he
     simp only [Bool.and_eq_true] at he
-    obtain ⟨a, t, ha, hane⟩ := compile_total_Fc e he.1 isFn c gs hfn
-    refine ⟨[a], ?_, by simpa using hane⟩
+    obtain ⟨a, t, g1, ha, hane, hf1⟩ := compile_total_Fc e he.1 isFn c gs hfn
+    refine ⟨[a], g1, ?_, by simpa using hane, hf1⟩
     rw [compileSC]
     simp only [g_bind_ok, g_pure_ok]
     exact ⟨_, _, ha, rfl⟩
   | e :: e' :: es, he, isFn, c, gs, hfn => by
     rw [FcList] at he
     simp only [Bool.and_eq_true] at he
-    obtain ⟨a, t, ha, hane⟩ := compile_total_Fc e he.1 isFn { c with tail := false } gs hfn
-    obtain ⟨b, hb, hbne⟩ := compileSC_total_Fc (e' :: es) he.2 isFn c gs hfn
-    refine ⟨a :: b, ?_, ?_⟩
+    obtain ⟨b, g1, hb, hbne, hf1⟩ := compileSC_total_Fc (e' :: es) he.2 isFn c gs hfn
+    obtain ⟨a, t, g2, ha, hane, hf2⟩ := compile_total_Fc e he.1 isFn { c with tail := false } g1 hfn
+    refine ⟨a :: b, g2, ?_, ?_, hf1.trans hf2⟩
     · rw [compileSC]
       · simp only [g_bind_ok, g_pure_ok]
         exact ⟨_, _, hb, _, _, ha, rfl⟩
@@ -274,7 +396,7 @@ theorem compileSC_total_Fc : ∀ (es : List Expr), FcList es = true → ∀ isFn
       · exact hane
       · exact hbne x hx
 theorem compileNewScope_total_Fc : ∀ (es : List Expr), es ≠ [] → FcList es = true → ∀ isFn c oldtail gs, c.funcname = "" →
-    ∃ code t, (compileNewScope isFn c oldtail es).run gs = .ok ((code, t), gs) ∧ code ≠ []
+    ∃ code t gs', (compileNewScope isFn c oldtail es).run gs = .ok ((code, t), gs') ∧ code ≠ [] ∧ GExt gs gs'
   | [], hne, _, _, _, _, _, _ => absurd rfl hne
   | [e], _, he, isFn, c, oldtail, gs, hfn => by
     rw [FcList] at he
@@ -284,47 +406,47 @@ theorem compileNewScope_total_Fc : ∀ (es : List Expr), es ≠ [] → FcList es
   | e :: e' :: es, _, he, isFn, c, oldtail, gs, hfn => by
     rw [FcList] at he
     simp only [Bool.and_eq_true] at he
-    obtain ⟨a, ta, ha, hane⟩ := compile_total_Fc e he.1 isFn { c with tail := false } gs hfn
-    obtain ⟨b, tb, hb, _⟩ := compileNewScope_total_Fc (e' :: es) (by simp) he.2 isFn c oldtail gs hfn
-    refine ⟨a ++ [.pop] ++ b, tb, ?_, by simp⟩
+    obtain ⟨a, ta, g1, ha, hane, hf1⟩ := compile_total_Fc e he.1 isFn { c with tail := false } gs hfn
+    obtain ⟨b, tb, g2, hb, _, hf2⟩ := compileNewScope_total_Fc (e' :: es) (by simp) he.2 isFn c oldtail g1 hfn
+    refine ⟨a ++ [.pop] ++ b, tb, g2, ?_, by simp, hf1.trans hf2⟩
     rw [compileNewScope]
     · simp only [g_bind_ok, g_pure_ok]
       exact ⟨_, _, ha, _, _, hb, rfl⟩
     · intro hh; cases hh
 theorem compileBinds_total_Fc : ∀ (bs : List (String × Expr)), FcBinds bs = true → ∀ isFn c seq gs, c.funcname = "" →
-    ∃ code t, (compileBinds isFn c seq bs).run gs = .ok ((code, t), gs)
-  | [], _, isFn, c, seq, gs, hfn => ⟨[], c.tail, by rw [compileBinds]; rfl⟩
+    ∃ code t gs', (compileBinds isFn c seq bs).run gs = .ok ((code, t), gs') ∧ GExt gs gs'
+  | [], _, isFn, c, seq, gs, hfn => ⟨[], c.tail, gs, by rw [compileBinds]; rfl, GExt.refl _⟩
   | (x, e) :: bs, he, isFn, c, seq, gs, hfn => by
     rw [FcBinds] at he
     simp only [Bool.and_eq_true] at he
-    obtain ⟨a, ta, ha, _⟩ := compile_total_Fc e he.1.2 isFn c gs hfn
-    obtain ⟨b, tb, hb⟩ := compileBinds_total_Fc bs he.2 isFn { c with tail := ta } seq gs hfn
-    refine ⟨a ++ (if seq then [.popStackPutEnv x] else []) ++ b, tb, ?_⟩
+    obtain ⟨a, ta, g1, ha, _, hf1⟩ := compile_total_Fc e he.1.2 isFn c gs hfn
+    obtain ⟨b, tb, g2, hb, hf2⟩ := compileBinds_total_Fc bs he.2 isFn { c with tail := ta } seq g1 hfn
+    refine ⟨a ++ (if seq then [.popStackPutEnv x] else []) ++ b, tb, g2, ?_, hf1.trans hf2⟩
     rw [compileBinds]
     simp only [g_bind_ok, g_pure_ok]
     exact ⟨_, _, ha, _, _, hb, rfl⟩
 theorem compileAll_total_Fc : ∀ (es : List Expr), FcList es = true → ∀ isFn c gs, c.funcname = "" →
-    ∃ code t, (compileAll isFn c es).run gs = .ok ((code, t), gs)
-  | [], _, isFn, c, gs, hfn => ⟨[], c.tail, by rw [compileAll]; rfl⟩
+    ∃ code t gs', (compileAll isFn c es).run gs = .ok ((code, t), gs') ∧ GExt gs gs'
+  | [], _, isFn, c, gs, hfn => ⟨[], c.tail, gs, by rw [compileAll]; rfl, GExt.refl _⟩
   | e :: es, he, isFn, c, gs, hfn => by
     rw [FcList] at he
     simp only [Bool.and_eq_true] at he
-    obtain ⟨a, ta, ha, _⟩ := compile_total_Fc e he.1 isFn c gs hfn
-    obtain ⟨b, tb, hb⟩ := compileAll_total_Fc es he.2 isFn { c with tail := ta } gs hfn
-    refine ⟨a ++ b, tb, ?_⟩
+    obtain ⟨a, ta, g1, ha, _, hf1⟩ := compile_total_Fc e he.1 isFn c gs hfn
+    obtain ⟨b, tb, g2, hb, hf2⟩ := compileAll_total_Fc es he.2 isFn { c with tail := ta } g1 hfn
+    refine ⟨a ++ b, tb, g2, ?_, hf1.trans hf2⟩
     rw [compileAll]
     simp only [g_bind_ok, g_pure_ok]
     exact ⟨_, _, ha, _, _, hb, rfl⟩
 theorem compileArms_total_Fc : ∀ (arms : List (Expr × Expr)), FcArms arms = true → ∀ isFn c gs, c.funcname = "" →
-    ∃ as, (compileArms isFn c arms).run gs = .ok (as, gs)
-  | [], _, isFn, c, gs, hfn => ⟨[], by rw [compileArms]; rfl⟩
+    ∃ as gs', (compileArms isFn c arms).run gs = .ok (as, gs') ∧ GExt gs gs'
+  | [], _, isFn, c, gs, hfn => ⟨[], gs, by rw [compileArms]; rfl, GExt.refl _⟩
   | (p, b) :: arms, he, isFn, c, gs, hfn => by
     rw [FcArms] at he
     simp only [Bool.and_eq_true] at he
-    obtain ⟨pc, _, hp, _⟩ := compile_total_Fc p he.1.1 isFn { c with tail := false } gs hfn
-    obtain ⟨bc, _, hb, _⟩ := compile_total_Fc b he.1.2 isFn c gs hfn
-    obtain ⟨r, hr⟩ := compileArms_total_Fc arms he.2 isFn c gs hfn
-    refine ⟨(pc, bc) :: r, ?_⟩
+    obtain ⟨r, g1, hr, hf1⟩ := compileArms_total_Fc arms he.2 isFn c gs hfn
+    obtain ⟨pc, _, g2, hp, _, hf2⟩ := compile_total_Fc p he.1.1 isFn { c with tail := false } g1 hfn
+    obtain ⟨bc, _, g3, hb, _, hf3⟩ := compile_total_Fc b he.1.2 isFn c g2 hfn
+    refine ⟨(pc, bc) :: r, g3, ?_, (hf1.trans hf2).trans hf3⟩
     rw [compileArms]
     simp only [g_bind_ok, g_pure_ok]
     exact ⟨_, _, hr, _, _, hp, _, _, hb, rfl⟩
@@ -333,19 +455,42 @@ end
 /-- whatever `compile` returns for an Fc expression is non-empty code -/
 theorem compile_ne_nil_Fc {e : Expr} (he : Fc e = true) {isFn c gs r}
     (h : (compile isFn c e).run gs = .ok r) (hfn : c.funcname = "") : r.1.1 ≠ [] := by
-  obtain ⟨code, t, h1, hne⟩ := compile_total_Fc e he isFn c gs hfn
+  obtain ⟨code, t, g1, h1, hne, _⟩ := compile_total_Fc e he isFn c gs hfn
   rw [h1] at h
   injection h with h
   subst h
   exact hne
 
-
 /-! ## Atoms, `def`, `set` -/
 
-theorem simC_push {s : St} {rs : Ref.St} {env : Nat} {pre post : List Instr} (v : Val)
+theorem simC_push {s : St} {rs : Ref.St} {env : Nat} {pre post : List Instr} (v : Val) (hv : Clean v)
     (hrel : RelC s rs env) (h : Seg s pre [.push v] post) : SimC [.push v] s rs env (.ok v rs) :=
-  ⟨s.jmp (s.pc + 1) (some v :: s.data), (reach_push h.head).toE, ⟨rfl, by simp, rfl⟩, hrel.jmp _ _,
-    FramesExt.refl rs, Frame.jmp _ _ _⟩
+  ⟨s.jmp (s.pc + 1) (some v :: s.data), (reach_push h.head).toX, ⟨rfl, by simp, rfl⟩, hrel.jmp _ _,
+    FramesExt.refl rs, Frame.jmp _ _ _, hv⟩
+
+/-- what a lookup finds is a binding of the frame it names -/
+theorem ref_lookupIn_sound (frames : List Ref.Frame) (x : String) : ∀ fuel env id w,
+    Ref.lookupIn frames fuel env x = some (id, w) → (frames.getD id {}).vars.lookup x = some w
+  | 0, _, _, _, h => by simp [Ref.lookupIn] at h
+  | fuel + 1, env, id, w, h => by
+    rw [Ref.lookupIn] at h
+    cases hf : frames[env]? with
+    | none => rw [hf] at h; cases h
+    | some fr =>
+      rw [hf] at h
+      simp only at h
+      cases hl : fr.vars.lookup x with
+      | some v =>
+        rw [hl] at h
+        simp only [Option.some.injEq, Prod.mk.injEq] at h
+        obtain ⟨rfl, rfl⟩ := h
+        rw [List.getD_eq_getElem?_getD, hf]; exact hl
+      | none =>
+        rw [hl] at h
+        simp only at h
+        cases hp : fr.parent with
+        | none => rw [hp] at h; cases h
+        | some p => rw [hp] at h; exact ref_lookupIn_sound frames x fuel p id w h
 
 theorem simC_sym {s : St} {rs : Ref.St} {env : Nat} {pre post : List Instr} (x : String) (n : Nat)
     (hrel : RelC s rs env) (h : Seg s pre [.envToStack x] post) :
@@ -358,19 +503,20 @@ theorem simC_sym {s : St} {rs : Ref.St} {env : Nat} {pre post : List Instr} (x :
     simp only [SimC]
     have : Fails 1 s s.trace := Fails.step h.head (fun f => by rw [exec_envToStack, hl])
     rw [hrel.trace] at this
-    exact this.toE
+    exact this.toX
   | some r =>
     obtain ⟨id, v⟩ := r
     rw [hr] at hl
     simp only [SimC]
     exact ⟨s.jmp (s.pc + 1) (some v :: s.data),
-      (Reach.step h.head (fun f => by rw [exec_envToStack, hl])).toE,
-      ⟨rfl, by simp, rfl⟩, hrel.jmp _ _, FramesExt.refl rs, Frame.jmp _ _ _⟩
+      (Reach.step h.head (fun f => by rw [exec_envToStack, hl])).toX,
+      ⟨rfl, by simp, rfl⟩, hrel.jmp _ _, FramesExt.refl rs, Frame.jmp _ _ _,
+      hrel.clean.1 id x v (ref_lookupIn_sound _ x _ _ id v hr)⟩
 
 /-- `popStackPutEnv x` with `v` on top of the data stack, in related states -/
 theorem psp_stepC {s₁ : St} {rs₁ : Ref.St} {env : Nat} {P Q : List Instr} {x : String} {v : Val}
     {D : List (Option Val)} (a : At s₁ P (.popStackPutEnv x) Q) (hd : s₁.data = some v :: D) (rel1 : RelC s₁ rs₁ env)
-    (hx : okBinder x = true) :
+    (hx : okBinder x = true) (hcv : Clean v) :
     match Ref.define rs₁ env x v with
     | some rs₂ => Reach 1 1 s₁ ((s₁.jmp (s₁.pc + 1) D).bind env x v)
         ∧ RelC ((s₁.jmp (s₁.pc + 1) D).bind env x v) rs₂ env ∧ FramesExt rs₁ rs₂
@@ -392,7 +538,7 @@ theorem psp_stepC {s₁ : St} {rs₁ : Ref.St} {env : Nat} {P Q : List Instr} {x
       Reach 1 1 s₁ ((s₁.jmp (s₁.pc + 1) D).bind env x v)
         ∧ RelC ((s₁.jmp (s₁.pc + 1) D).bind env x v) (Ref.setVar rs₁ env x v) env
         ∧ FramesExt rs₁ (Ref.setVar rs₁ env x v) := fun hb' =>
-    ⟨Reach.step a (fun f => (hx' f).trans hb'), (rel1.jmp _ _).bind env hlt hx v, FramesExt.setVar _ _ _ _⟩
+    ⟨Reach.step a (fun f => (hx' f).trans hb'), (rel1.jmp _ _).bind env hlt hx hcv, FramesExt.setVar _ _ _ _⟩
   have herr : (bindTop x v).run (s₁.jmp (s₁.pc + 1) D) = (.error .err, s₁.jmp (s₁.pc + 1) D) →
       Fails 1 s₁ rs₁.trace := fun hb' => by
     have hf := Fails.step a (fun f => (hx' f).trans hb')
@@ -414,32 +560,32 @@ theorem psp_stepC {s₁ : St} {rs₁ : Ref.St} {env : Nat} {P Q : List Instr} {x
 /-- `def x e`, after `e` has produced `v` -/
 theorem simC_def_tail {s s₁ : St} {rs rs₁ : Ref.St} {env : Nat} {pre post ce : List Instr} {x : String} {v : Val}
     (h : Seg s pre (ce ++ [.dup, .popStackPutEnv x]) post) (hx : okBinder x = true)
-    (r1 : ReachE ce.length s s₁) (l1 : Lands ce.length v s s₁) (rel1 : RelC s₁ rs₁ env) (ext1 : FramesExt rs rs₁)
-    (fr1 : Frame s s₁) :
+    (r1 : ReachX s s₁) (l1 : Lands ce.length v s s₁) (rel1 : RelC s₁ rs₁ env) (ext1 : FramesExt rs rs₁)
+    (fr1 : Frame s s₁) (hcv : Clean v) :
     SimC (ce ++ [.dup, .popStackPutEnv x]) s rs env
       (match Ref.define rs₁ env x v with | some s' => .ok v s' | none => .err rs₁) := by
   obtain ⟨r2, a3⟩ := glue_dup h l1
   have hlen : (ce ++ [Instr.dup, Instr.popStackPutEnv x]).length = ce.length + 1 + 1 := by simp
-  have hp := psp_stepC a3 (D := some v :: s.data) rfl (rel1.jmp _ _) hx
+  have hp := psp_stepC a3 (D := some v :: s.data) rfl (rel1.jmp _ _) hx hcv
   cases hdef : Ref.define rs₁ env x v with
   | none =>
     rw [hdef] at hp
     simp only
-    exact (FailsE.of_reach (r1.trans r2.toE) hp.toE).mono (by rw [hlen]; exact Nat.le_refl _)
+    exact (FailsX.of_reach (r1.trans r2.toX) hp.toX)
   | some rs₂ =>
     rw [hdef] at hp
     obtain ⟨r3, rel3, ext3⟩ := hp
     simp only
-    refine ⟨_, ((r1.trans r2.toE).trans r3.toE).mono (by rw [hlen]; exact Nat.le_refl _), ⟨l1.fn, ?_, rfl⟩, rel3,
-      ext1.trans ext3, fr1.trans ((Frame.jmp _ _ _).trans ((Frame.jmp _ _ _).trans (Frame.bind _ _ _ _)))⟩
+    refine ⟨_, ((r1.trans r2.toX).trans r3.toX), ⟨l1.fn, ?_, rfl⟩, rel3,
+      ext1.trans ext3, fr1.trans ((Frame.jmp _ _ _).trans ((Frame.jmp _ _ _).trans (Frame.bind _ _ _ _))), hcv⟩
     show s₁.pc + 1 + 1 = _
     rw [l1.pc, hlen]; push_cast; omega
 
 /-- `set x e`, after `e` has produced `v` -/
 theorem simC_set_tail {s s₁ : St} {rs rs₁ : Ref.St} {env : Nat} {pre post ce : List Instr} {x : String} {v : Val}
     (h : Seg s pre (ce ++ [.dup, .update x]) post) (hxb : okBinder x = true)
-    (r1 : ReachE ce.length s s₁) (l1 : Lands ce.length v s s₁) (rel1 : RelC s₁ rs₁ env) (ext1 : FramesExt rs rs₁)
-    (fr1 : Frame s s₁) :
+    (r1 : ReachX s s₁) (l1 : Lands ce.length v s s₁) (rel1 : RelC s₁ rs₁ env) (ext1 : FramesExt rs rs₁)
+    (fr1 : Frame s s₁) (hcv : Clean v) :
     SimC (ce ++ [.dup, .update x]) s rs env
       (match Ref.lookup rs₁ env x with
        | some (fr, _) => .ok v (Ref.setVar rs₁ fr x v)
@@ -468,9 +614,9 @@ theorem simC_set_tail {s s₁ : St} {rs rs₁ : Ref.St} {env : Nat} {pre post ce
       SimC (ce ++ [.dup, .update x]) s rs env (.ok v (Ref.setVar rs₁ id x v)) := by
     intro id hid hx'
     refine ⟨(s₁.jmp (s₁.pc + 1 + 1) (some v :: s.data)).bind id x v, ?_, ⟨l1.fn, ?_, rfl⟩,
-      (rel1.jmp _ _).bind id hid hxb v, ext1.trans (FramesExt.setVar _ _ _ _),
-      fr1.trans ((Frame.jmp _ _ _).trans (Frame.bind _ _ _ _))⟩
-    · exact ((r1.trans r2.toE).trans (Reach.step a3 hx').toE).mono (by rw [hlen]; exact Nat.le_refl _)
+      (rel1.jmp _ _).bind id hid hxb hcv, ext1.trans (FramesExt.setVar _ _ _ _),
+      fr1.trans ((Frame.jmp _ _ _).trans (Frame.bind _ _ _ _)), hcv⟩
+    · exact ((r1.trans r2.toX).trans (Reach.step a3 hx').toX)
     · show s₁.pc + 1 + 1 = _
       rw [l1.pc, hlen]; push_cast; omega
   cases hl : Ref.lookup rs₁ env x with
@@ -493,44 +639,43 @@ theorem simC_set_tail {s s₁ : St} {rs rs₁ : Ref.St} {env : Nat} {pre post ce
 
 /-! ## Sequencing -/
 
-theorem SimC.seq {code c₂ : List Instr} {s s₁' : St} {rs rs₁ : Ref.St} {env K₁ k : Nat} {res : Ref.R Val}
-    (hreach : ReachE K₁ s s₁') (hmoved : Moved k s s₁') (hext : FramesExt rs rs₁) (hframe : Frame s s₁')
-    (h₂ : SimC c₂ s₁' rs₁ env res)
-    (hK : K₁ + c₂.length ≤ code.length) (hk : k + c₂.length = code.length) : SimC code s rs env res := by
+theorem SimC.seq {code c₂ : List Instr} {s s₁' : St} {rs rs₁ : Ref.St} {env k : Nat} {res : Ref.R Val}
+    (hreach : ReachX s s₁') (hmoved : Moved k s s₁') (hext : FramesExt rs rs₁) (hframe : Frame s s₁')
+    (h₂ : SimC c₂ s₁' rs₁ env res) (hk : k + c₂.length = code.length) : SimC code s rs env res := by
   cases res with
   | ok v rs' =>
-    obtain ⟨s₂, r, l, rel, ext, fr⟩ := h₂
-    exact ⟨s₂, (hreach.trans r).mono hK, hk ▸ hmoved.lands l, rel, hext.trans ext, hframe.trans fr⟩
-  | err rs' => exact (FailsE.of_reach hreach h₂).mono hK
+    obtain ⟨s₂, r, l, rel, ext, fr, hcl⟩ := h₂
+    exact ⟨s₂, (hreach.trans r), hk ▸ hmoved.lands l, rel, hext.trans ext, hframe.trans fr, hcl⟩
+  | err rs' => exact (FailsX.of_reach hreach h₂)
   | timeout => trivial
   | brk l rs' => exact h₂
   | cont l rs' => exact h₂
 
 theorem SimC.prefix {code c₁ : List Instr} {s : St} {rs : Ref.St} {env : Nat} {res : Ref.R Val}
-    (h₁ : SimC c₁ s rs env res) (hnot : ∀ v rs', res ≠ .ok v rs') (hK : c₁.length ≤ code.length) :
+    (h₁ : SimC c₁ s rs env res) (hnot : ∀ v rs', res ≠ .ok v rs') :
     SimC code s rs env res := by
   cases res with
   | ok v rs' => exact absurd rfl (hnot v rs')
-  | err rs' => exact FailsE.mono h₁ hK
+  | err rs' => exact h₁
   | timeout => trivial
   | brk l rs' => exact h₁
   | cont l rs' => exact h₁
 
-theorem SimC.cond_exit {p b rest pre post : List Instr} {s s₁' : St} {rs rs₁ : Ref.St} {env K₁ : Nat} {res : Ref.R Val}
+theorem SimC.cond_exit {p b rest pre post : List Instr} {s s₁' : St} {rs rs₁ : Ref.St} {env : Nat} {res : Ref.R Val}
     (h : Seg s pre (p ++ [.branch false (b.length + 2)] ++ b ++ [.jump (rest.length + 1)] ++ rest) post)
-    (hreach : ReachE K₁ s s₁') (hmoved : Moved (p.length + 1) s s₁') (hext : FramesExt rs rs₁) (hframe : Frame s s₁')
-    (h₂ : SimC b s₁' rs₁ env res) (hK : K₁ ≤ p.length + 1) :
+    (hreach : ReachX s s₁') (hmoved : Moved (p.length + 1) s s₁') (hext : FramesExt rs rs₁) (hframe : Frame s s₁')
+    (h₂ : SimC b s₁' rs₁ env res) :
     SimC (p ++ [.branch false (b.length + 2)] ++ b ++ [.jump (rest.length + 1)] ++ rest) s rs env res := by
   have hlen : (p ++ [Instr.branch false (b.length + 2)] ++ b ++ [Instr.jump (rest.length + 1)] ++ rest).length
       = p.length + 1 + b.length + 1 + rest.length := by simp; omega
   cases res with
   | ok v rs' =>
-    obtain ⟨s₂, r, l, rel, ext, fr⟩ := h₂
+    obtain ⟨s₂, r, l, rel, ext, fr, hcl⟩ := h₂
     have l2 : Lands (p.length + 1 + b.length) v s s₂ := hmoved.lands l
     obtain ⟨r3, l3⟩ := glue_cond_exit h l2
-    exact ⟨_, ((hreach.trans r).trans r3.toE).mono (by rw [hlen]; omega), l3, rel.jmp _ _, hext.trans ext,
-      (hframe.trans fr).trans (Frame.jmp _ _ _)⟩
-  | err rs' => exact (FailsE.of_reach hreach h₂).mono (by rw [hlen]; omega)
+    exact ⟨_, ((hreach.trans r).trans r3.toX), l3, rel.jmp _ _, hext.trans ext,
+      (hframe.trans fr).trans (Frame.jmp _ _ _), hcl⟩
+  | err rs' => exact (FailsX.of_reach hreach h₂)
   | timeout => trivial
   | brk l rs' => exact h₂
   | cont l rs' => exact h₂
@@ -549,7 +694,7 @@ theorem SimC.scoped {inner pre post : List Instr} {s : St} {rs : Ref.St} {env : 
   have hlen : ([Instr.addScope] ++ inner ++ [Instr.removeScope]).length = 1 + inner.length + 1 := by simp; omega
   cases res with
   | ok v rs3 =>
-    obtain ⟨s3, r, l, rel3, ext3, fr3⟩ := hin
+    obtain ⟨s3, r, l, rel3, ext3, fr3, hcl⟩ := hin
     have l' : Lands (1 + inner.length) v s s3 := m1.lands l
     obtain ⟨rest, hlin⟩ := rel3.chain.head
     obtain ⟨f, hf, hp⟩ := ext3 rs.frames.length { parent := some env }
@@ -557,26 +702,42 @@ theorem SimC.scoped {inner pre post : List Instr} {s : St} {rs : Ref.St} {env : 
     obtain ⟨r4, l4⟩ := glue_removeScope h l' hlin
     obtain ⟨hl, hc, ha, hs⟩ := fr3.pushScope_inner
     have hframe : Frame s s3.popScope :=
-      ⟨hl, hc, ha, hs, fr3.fnsLen, fr3.fns⟩
-    refine ⟨_, ((r1.toE.trans r).trans r4.toE).mono (by rw [hlen]; omega), l4,
-      ⟨rel3.toRelCore.popScope f hf hp, ?_, rel3.globals⟩, (FramesExt.newFrame rs env).trans ext3, hframe⟩
+      ⟨hl, hc, ha, hs, fr3.fnsLen, fr3.fns, fr3.loopsLen, fr3.loops⟩
+    refine ⟨_, ((r1.toX.trans r).trans r4.toX), l4,
+      ⟨rel3.toRelCore.popScope f hf hp, ?_, rel3.globals, rel3.clean⟩, (FramesExt.newFrame rs env).trans ext3, hframe,
+      hcl⟩
     rw [hc]
     exact hrel.fnchain.transfer ⟨[], by rw [hl]; rfl⟩ hframe.fnsLen hframe.fns
-  | err rs3 => exact (FailsE.of_reach r1.toE hin).mono (by rw [hlen]; omega)
+  | err rs3 => exact (FailsX.of_reach r1.toX hin)
   | timeout => trivial
   | brk l rs3 => exact hin
   | cont l rs3 => exact hin
+
+/-- the relation only reads scopes, linear stack, function table, `curfunc`, frames, heaps and traces -/
+theorem RelC.of_same {s s' : St} {rs rs' : Ref.St} {env : Nat} (h : RelC s rs env)
+    (hsc : s'.scopes = s.scopes) (hlin : s'.linear = s.linear) (hfns : s'.fns = s.fns) (hcur : s'.curfunc = s.curfunc)
+    (hfr : rs'.frames = rs.frames) (hheap : s'.heap = rs'.heap) (htr : s'.trace = rs'.trace) (hclean : CleanSt rs') :
+    RelC s' rs' env := by
+  have hso : ∀ i, scopeOf s' i = scopeOf s i := fun i => by unfold scopeOf; rw [hsc]
+  have hfo : ∀ i, fnOf s' i = fnOf s i := fun i => by unfold fnOf; rw [hfns]
+  refine ⟨⟨by rw [hsc, hfr]; exact h.len, fun i x => by rw [hso, hfr]; exact h.vars i x,
+    fun i => by rw [hso]; exact h.nofn i, by rw [hfr, hlin]; exact h.chain, hheap, htr⟩, ?_, ?_, hclean⟩
+  · rw [hcur]
+    exact h.fnchain.transfer ⟨[], by rw [hlin]; rfl⟩ (by rw [hfns]; exact Nat.le_refl _) (fun id _ => hfo id)
+  · intro name hn
+    have := h.globals name hn
+    rw [hfr]; exact this
 
 /-! ## Operands: `EvalCallExpression` and its nested `Run` -/
 
 /-- `Run` inside a helper function whose code is `code ++ [ret]`: the code lands with `v`, `ret`
 returns to `pc = -1` of the caller, the loop stops there, `Run` pops `v`. -/
 theorem run_helper_ok {s₃ s₄ : St} {code : List Instr} {v : Val} {cf : Nat} {A : List (Option (Nat × Int))}
-    (hseg : Seg s₃ [] code [.ret]) (hr : ReachE code.length s₃ s₄) (hl : Lands code.length v s₃ s₄)
+    (hseg : Seg s₃ [] code [.ret]) (hr : ReachX s₃ s₄) (hl : Lands code.length v s₃ s₄)
     (ha : s₄.addr = some (cf, -1) :: A) :
     ∃ M, ∀ fuel, M ≤ fuel →
       (run fuel).run s₃ = (.ok v, { s₄ with addr := A, curfunc := cf, pc := -1, data := s₃.data }) := by
-  obtain ⟨m, k, hk, H⟩ := hr
+  obtain ⟨K, m, k, hk, H⟩ := hr
   refine ⟨m + k + 4, fun fuel hf => ?_⟩
   obtain ⟨F, rfl⟩ : ∃ F, fuel = ((F + 2) + k) + 1 := ⟨fuel - k - 3, by omega⟩
   have a4 : At s₄ code .ret [] := hseg.landed hl (c₁ := code) (by simp) rfl
@@ -593,9 +754,9 @@ theorem run_helper_ok {s₃ s₄ : St} {code : List Instr} {v : Val} {cf : Nat} 
     run_pure, run_popData]
 
 /-- `Run` over code that ends in a script error -/
-theorem run_of_failsE {s : St} {K : Nat} {tr : List String} (h : FailsE K s tr) :
+theorem run_of_failsE {s : St} {tr : List String} (h : FailsX s tr) :
     ∃ M, ∀ fuel, M ≤ fuel → ∃ sf, (run fuel).run s = (.error .err, sf) ∧ sf.trace = tr := by
-  obtain ⟨k, hk, m, H⟩ := h
+  obtain ⟨K, k, hk, m, H⟩ := h
   refine ⟨m + k + 1, fun fuel hf => ?_⟩
   obtain ⟨f, rfl⟩ : ∃ f, fuel = (f + k) + 1 := ⟨fuel - k - 1, by omega⟩
   obtain ⟨sf, hrun, htr⟩ := H f (by omega) (capOf s)
@@ -628,7 +789,7 @@ theorem seg_inHelper (s : St) (code : List Instr) : Seg (inHelper s code) [] cod
 /-- the helper sees the same scopes; its closing list is the whole linear stack -/
 theorem relC_inHelper {s : St} {rs : Ref.St} {env : Nat} (h : RelC s rs env) (code : List Instr) :
     RelC (inHelper s code) rs env := by
-  refine ⟨⟨h.len, h.vars, h.nofn, h.chain, h.heap, h.trace⟩, ?_, h.globals⟩
+  refine ⟨⟨h.len, h.vars, h.nofn, h.chain, h.heap, h.trace⟩, ?_, h.globals, h.clean⟩
   have hold : FnChainOk (inHelper s code) s.curfunc :=
     h.fnchain.transfer (s' := inHelper s code) ⟨[], rfl⟩ (by show s.fns.length ≤ (s.fns ++ [_]).length; simp)
       (fun id hid => fnOf_inHelper_old s code id hid)
@@ -639,9 +800,9 @@ theorem relC_inHelper {s : St} {rs : Ref.St} {env : Nat} (h : RelC s rs env) (co
 
 /-- `EvalCallExpression` on an operand that is not a symbol: compile, register the helper, run it
 in a nested `Run`, restore the control state. -/
-theorem evalCallExpr_nonsym (fuel : Nat) (e : Expr) (hns : ∀ x, e ≠ .sym x) (s : St) (code : List Instr) (t : Bool)
-    (hgen : (runGen (compile (isFnScope s) {} e)).run s = (.ok (code, t), s)) (hne : code ≠ []) :
-    (evalCallExpr (fuel + 2) e).run s =
+theorem evalCallExpr_nonsym (fuel : Nat) (e : Expr) (hns : ∀ x, e ≠ .sym x) (s0 s : St) (code : List Instr) (t : Bool)
+    (hgen : (runGen (compile (isFnScope s0) {} e)).run s0 = (.ok (code, t), s)) (hne : code ≠ []) :
+    (evalCallExpr (fuel + 2) e).run s0 =
       match (run fuel).run (inHelper s code) with
       | (.ok v, s') => (.ok v, ((restore (capOf s)).run s').2)
       | (.error .err, s') => (.error .err, ((restore (capOf s)).run s').2)
@@ -684,7 +845,7 @@ theorem evalCallExpr_nonsym (fuel : Nat) (e : Expr) (hns : ∀ x, e ≠ .sym x) 
 def EvalOk (e : Expr) (s : St) (rs : Ref.St) (env : Nat) (res : Ref.R Val) : Prop :=
   match res with
   | .ok v rs' => ∃ M s', (∀ fuel, M ≤ fuel → (evalCallExpr fuel e).run s = (.ok v, s'))
-      ∧ s'.data = s.data ∧ s'.pc = s.pc ∧ RelC s' rs' env ∧ FramesExt rs rs' ∧ Frame s s'
+      ∧ s'.data = s.data ∧ s'.pc = s.pc ∧ RelC s' rs' env ∧ FramesExt rs rs' ∧ Frame s s' ∧ Clean v
   | .err rs' => ∃ M, ∀ fuel, M ≤ fuel → ∃ se, (evalCallExpr fuel e).run s = (.error .err, se) ∧ se.trace = rs'.trace
   | .timeout => True
   | .brk _ _ => False
@@ -714,25 +875,45 @@ theorem evalCallExpr_sym_sim (x : String) (n : Nat) {s : St} {rs : Ref.St} {env 
     | some r =>
       obtain ⟨i, v⟩ := r
       rw [hr] at hl
-      refine ⟨1, s, fun fuel hf => ?_, rfl, rfl, hrel, FramesExt.refl rs, Frame.refl s⟩
+      refine ⟨1, s, fun fuel hf => ?_, rfl, rfl, hrel, FramesExt.refl rs, Frame.refl s,
+        hrel.clean.1 i x v (ref_lookupIn_sound _ x _ _ i v hr)⟩
       obtain ⟨f, rfl⟩ : ∃ f, fuel = f + 1 := ⟨fuel - 1, by omega⟩
       rw [hrun, hl]
 
+/-- the VM state with the loop table and compile-time loop stack the generator left -/
+def withLoops (s : St) (gs' : GS) : St := { s with loops := gs'.loops, loopstack := gs'.loopstack }
+
+/-- the generator succeeded without touching the function table: `runGen` returns its result and
+stores the loop records -/
+theorem run_runGen_any {α} (g : G α) (s : St) (a : α) (gs' : GS)
+    (h : g.run { fns := s.fns, loops := s.loops, loopstack := s.loopstack, live := s.linear } = .ok (a, gs'))
+    (hf : gs'.fns = s.fns) : (runGen g).run s = (.ok a, withLoops s gs') := by
+  unfold runGen
+  simp only [run_bind, run_get, h, run_set, run_pure, hf]
+  rfl
+
 /-- an operand that is not a symbol, given the segment lemma for it at the same reference fuel -/
 theorem evalCallExpr_nonsym_sim {n : Nat} (hE : CClaimE n) (e : Expr) (he : Fc e = true) (hns : ∀ x, e ≠ .sym x)
-    {s : St} {rs : Ref.St} {env : Nat} (hrel : RelC s rs env) :
-    EvalOk e s rs env (Ref.eval n e env rs) := by
-  obtain ⟨code, t, hc, hne⟩ := compile_total_Fc e he (isFnScope s) {}
-    { fns := s.fns, loops := s.loops, loopstack := s.loopstack, live := s.linear } rfl
-  have hgen : (runGen (compile (isFnScope s) {} e)).run s = (.ok (code, t), s) := run_runGen_ok _ s _ hc
+    {s0 : St} {rs : Ref.St} {env : Nat} (hrel0 : RelC s0 rs env) :
+    EvalOk e s0 rs env (Ref.eval n e env rs) := by
+  obtain ⟨code, t, gs', hc, hne, hfns⟩ := compile_total_Fc e he (isFnScope s0) {}
+    { fns := s0.fns, loops := s0.loops, loopstack := s0.loopstack, live := s0.linear } rfl
+  -- the generator may have registered loop records (a `for` inside the operand): `s` is `s0` with them
+  have hgen : (runGen (compile (isFnScope s0) {} e)).run s0 = (.ok (code, t), withLoops s0 gs') :=
+    run_runGen_any _ s0 _ gs' hc hfns.fns
+  generalize hs : withLoops s0 gs' = s at hgen
+  have hrel : RelC s rs env := by
+    subst hs; exact hrel0.of_same rfl rfl rfl rfl rfl hrel0.heap hrel0.trace hrel0.clean
+  have hs0 : Frame s0 s ∧ s.data = s0.data ∧ s.pc = s0.pc := by
+    subst hs; exact ⟨⟨rfl, rfl, rfl, rfl, Nat.le_refl _, fun _ _ => rfl, hfns.len, hfns.loops⟩, rfl, rfl⟩
   have hseg := seg_inHelper s code
-  have hsim := hE e he (isFnScope s) {} _ ((code, t), _) hc rfl (inHelper s code) rs env [] [.ret]
+  have hsim := hE e he (isFnScope s0) {} _ ((code, t), _) hc rfl (inHelper s code) rs env [] [.ret]
     (relC_inHelper hrel code) hseg
-  have hunf := fun fuel => evalCallExpr_nonsym fuel e hns s code t hgen hne
+  have hunf := fun fuel => evalCallExpr_nonsym fuel e hns s0 s code t hgen hne
   cases hres : Ref.eval n e env rs with
   | ok v rs' =>
     rw [hres] at hsim
-    obtain ⟨s4, r, l, rel4, ext4, fr4⟩ := hsim
+    obtain ⟨s4, r, l, rel4, ext4, fr4, hcl4⟩ := hsim
     have ha4 : s4.addr = some (s.curfunc, -1) :: s.addr := fr4.addr
     obtain ⟨M, hM⟩ := run_helper_ok hseg r l ha4
     -- the state after `Run`, and after restoring the control state
@@ -741,22 +922,22 @@ theorem evalCallExpr_nonsym_sim {n : Nat} (hE : CClaimE n) (e : Expr) (he : Fc e
       (by show s4.suspended.length = s.suspended.length; rw [fr4.susp]; rfl) rfl
       (by show s4.linear.length = s.linear.length; rw [fr4.linear]; rfl) rfl
     refine ⟨M + 2, { s4 with addr := s.addr, curfunc := s.curfunc, pc := s.pc, data := s.data }, fun fuel hf => ?_,
-      rfl, rfl, ?_, ext4, ?_⟩
+      hs0.2.1, hs0.2.2, ?_, ext4, ?_, hcl4⟩
     · obtain ⟨f, rfl⟩ : ∃ f, fuel = f + 2 := ⟨fuel - 2, by omega⟩
       rw [hunf f, hM f (by omega)]
       simp only [hbal]
       rfl
-    · refine ⟨⟨rel4.len, rel4.vars, rel4.nofn, ?_, rel4.heap, rel4.trace⟩, ?_, rel4.globals⟩
+    · refine ⟨⟨rel4.len, rel4.vars, rel4.nofn, ?_, rel4.heap, rel4.trace⟩, ?_, rel4.globals, rel4.clean⟩
       · have := rel4.chain; rw [fr4.linear] at this ⊢; exact this
       · exact hrel.fnchain.transfer (s' := { s4 with addr := s.addr, curfunc := s.curfunc, pc := s.pc, data := s.data })
           ⟨[], by show s4.linear = _; rw [fr4.linear]; rfl⟩
           (Nat.le_trans (by show s.fns.length ≤ (s.fns ++ [_]).length; simp) fr4.fnsLen)
           (fun id hid => (fr4.fns id (by show id < (s.fns ++ [_]).length; simp; omega)).trans
             (fnOf_inHelper_old s code id hid))
-    · exact ⟨fr4.linear, rfl, rfl, fr4.susp,
+    · exact hs0.1.trans ⟨fr4.linear, rfl, rfl, fr4.susp,
         Nat.le_trans (by show s.fns.length ≤ (s.fns ++ [_]).length; simp) fr4.fnsLen,
         fun id hid => (fr4.fns id (by show id < (s.fns ++ [_]).length; simp; omega)).trans
-          (fnOf_inHelper_old s code id hid)⟩
+          (fnOf_inHelper_old s code id hid), fr4.loopsLen, fr4.loops⟩
   | err rs' =>
     rw [hres] at hsim
     obtain ⟨M, hM⟩ := run_of_failsE hsim
@@ -813,7 +994,7 @@ theorem cclaimA_succ {n : Nat} (hE : CClaimE n) (hA : CClaimA n) : CClaimA (n + 
   match args with
   | [] =>
     rw [Ref.evalArgs]
-    · refine ⟨1, s, fun fuel hf => ?_, by simp, rfl, hrel, FramesExt.refl rs, Frame.refl s⟩
+    · refine ⟨1, s, fun fuel hf => ?_, by simp, rfl, hrel, FramesExt.refl rs, Frame.refl s, fun v hv => by cases hv⟩
       obtain ⟨f, rfl⟩ : ∃ f, fuel = f + 1 := ⟨fuel - 1, by omega⟩
       rw [prepareArgs]
       · rfl
@@ -839,15 +1020,19 @@ theorem cclaimA_succ {n : Nat} (hE : CClaimE n) (hA : CClaimA n) : CClaimA (n + 
     cases h1 : Ref.eval n e env rs with
     | ok v rs1 =>
       rw [h1] at he
-      obtain ⟨M1, s1, hM1, hd1, hp1, rel1, ext1, fr1⟩ := he
+      obtain ⟨M1, s1, hM1, hd1, hp1, rel1, ext1, fr1, hcl1⟩ := he
       simp only
       have ih := hA es hargs.2 (i + 1) (s1.jmp s1.pc (some v :: s1.data)) rs1 env (rel1.jmp _ _)
       cases h2 : Ref.evalArgs n es (i + 1) (fun _ => false) env rs1 with
       | ok vs rs2 =>
         rw [h2] at ih
-        obtain ⟨M2, s2, hM2, hd2, hp2, rel2, ext2, fr2⟩ := ih
+        obtain ⟨M2, s2, hM2, hd2, hp2, rel2, ext2, fr2, hcl2⟩ := ih
         refine ⟨max M1 M2 + 1, s2, fun fuel hf => ?_, ?_, by rw [hp2]; exact hp1, rel2, ext1.trans ext2,
-          fr1.trans ((Frame.jmp _ _ _).trans fr2)⟩
+          fr1.trans ((Frame.jmp _ _ _).trans fr2), fun w hw => ?_⟩
+        rotate_left 2
+        · rcases List.mem_cons.mp hw with rfl | hw
+          · exact hcl1
+          · exact hcl2 w hw
         · obtain ⟨f, rfl⟩ : ∃ f, fuel = f + 1 := ⟨fuel - 1, by omega⟩
           rw [hunf f, hM1 f (by omega)]
           exact hM2 f (by omega)
@@ -901,19 +1086,12 @@ theorem exec_callExpr_builtin (F : Nat) (h : String) (args : List Expr) (s : St)
     | error flt =>
       cases flt <;> simp only [run_bind, hp, hcu, run_get, run_set, run_throw, run_modify, run_pure]
 
-/-- the relation only reads scopes, linear stack, function table, `curfunc`, frames, heaps and traces -/
-theorem RelC.of_same {s s' : St} {rs rs' : Ref.St} {env : Nat} (h : RelC s rs env)
-    (hsc : s'.scopes = s.scopes) (hlin : s'.linear = s.linear) (hfns : s'.fns = s.fns) (hcur : s'.curfunc = s.curfunc)
-    (hfr : rs'.frames = rs.frames) (hheap : s'.heap = rs'.heap) (htr : s'.trace = rs'.trace) : RelC s' rs' env := by
-  have hso : ∀ i, scopeOf s' i = scopeOf s i := fun i => by unfold scopeOf; rw [hsc]
-  have hfo : ∀ i, fnOf s' i = fnOf s i := fun i => by unfold fnOf; rw [hfns]
-  refine ⟨⟨by rw [hsc, hfr]; exact h.len, fun i x => by rw [hso, hfr]; exact h.vars i x,
-    fun i => by rw [hso]; exact h.nofn i, by rw [hfr, hlin]; exact h.chain, hheap, htr⟩, ?_, ?_⟩
-  · rw [hcur]
-    exact h.fnchain.transfer ⟨[], by rw [hlin]; rfl⟩ (by rw [hfns]; exact Nat.le_refl _) (fun id _ => hfo id)
-  · intro name hn
-    have := h.globals name hn
-    rw [hfr]; exact this
+theorem foBuiltins_prim {h : String} (hh : h ∈ foBuiltins) (ht : h ≠ "trace") : h ∈ primNames := by
+  have : foBuiltins = primNames ++ ["trace"] := rfl
+  rw [this] at hh
+  rcases List.mem_append.mp hh with hh | hh
+  · exact hh
+  · simp at hh; exact absurd hh ht
 
 /-- **A call of a first-order builtin**: callee by lookup, operands by nested runs, the builtin
 under `CallUserFunction` — against `eval f`, `evalArgs`, `applyFn` of the reference evaluator. -/
@@ -930,7 +1108,7 @@ theorem simC_call {m : Nat} (hA : CClaimA (m + 1)) (h : String) (hh : h ∈ foBu
   cases h1 : Ref.evalArgs (m + 1) args 0 (fun _ => false) env rs with
   | ok vs rs1 =>
     rw [h1] at hprep
-    obtain ⟨M, s1, hM, hd1, hp1, rel1, ext1, fr1⟩ := hprep
+    obtain ⟨M, s1, hM, hd1, hp1, rel1, ext1, fr1, hclvs⟩ := hprep
     simp only
     have hlen : args.length = vs.length := (ref_evalArgs_length _ _ _ _ _ _ _ h1).symm
     have hcu := fun f => run_callUser_fo f h hh vs s.data s1 hd1
@@ -941,9 +1119,10 @@ theorem simC_call {m : Nat} (hA : CClaimA (m + 1)) (h : String) (hh : h ∈ foBu
     -- the successful case, uniformly in the new heap and trace
     have hok : ∀ (v : Val) (s3 : St) (rsF : Ref.St), foResult h vs (inBuiltin s1 s.data) = (.ok v, s3) →
         s3.scopes = s1.scopes → s3.linear = s1.linear → s3.fns = s1.fns → s3.suspended = s1.suspended →
-        rsF.frames = rs1.frames → s3.heap = rsF.heap → s3.trace = rsF.trace →
+        s3.loops = s1.loops →
+        rsF.frames = rs1.frames → s3.heap = rsF.heap → s3.trace = rsF.trace → CleanSt rsF → Clean v →
         SimC [.callExpr (.sym h) args] s rs env (.ok v rsF) := by
-      intro v s3 rsF hres hsc hlin hfns hsus hfr hheap htr
+      intro v s3 rsF hres hsc hlin hfns hsus hlps hfr hheap htr hclF hclv
       let sF : St := { s3 with data := some v :: s.data, addr := s1.addr, curfunc := s1.curfunc, pc := s1.pc + 1 }
       have hx : ∀ f, M + 3 ≤ f → (exec (f + 1) (.callExpr (.sym h) args)).run s = (.ok (), sF) := by
         intro f hf
@@ -951,23 +1130,26 @@ theorem simC_call {m : Nat} (hA : CClaimA (m + 1)) (h : String) (hh : h ∈ foBu
         rw [hexec (G + 1), run_bind, hM (G + 1 + 1) (by omega)]
         simp only
         rw [hlen, hcu G, hres]
-      have hrelF : RelC sF rsF env := rel1.of_same hsc hlin hfns rfl hfr hheap htr
+      have hrelF : RelC sF rsF env := rel1.of_same hsc hlin hfns rfl hfr hheap htr hclF
       have hfnF : fnOf sF sF.curfunc = fnOf s s.curfunc := by
         show s3.fns.getD s1.curfunc {} = _
         rw [hfns, fr1.curfunc]; exact fr1.fns _ hcurlt
-      refine ⟨sF, ReachE.step hseg.head (M + 3) hx, ⟨hfnF, by show s1.pc + 1 = _; rw [hp1]; simp, rfl⟩, hrelF,
+      refine ⟨sF, ReachX.step hseg.head (M + 3) hx, ⟨hfnF, by show s1.pc + 1 = _; rw [hp1]; simp, rfl⟩, hrelF,
         ext1.trans (fun i fr hf => ⟨fr, by rw [hfr]; exact hf, rfl⟩),
         ⟨hlin.trans fr1.linear, fr1.curfunc, fr1.addr, hsus.trans fr1.susp,
           by show s.fns.length ≤ s3.fns.length; rw [hfns]; exact fr1.fnsLen,
-          fun id hid => by show s3.fns.getD id {} = _; rw [hfns]; exact fr1.fns id hid⟩⟩
+          fun id hid => by show s3.fns.getD id {} = _; rw [hfns]; exact fr1.fns id hid,
+          by show s.loops.length ≤ s3.loops.length; rw [hlps]; exact fr1.loopsLen,
+          fun id hid => by show s3.loops.getD id {} = _; rw [hlps]; exact fr1.loops id hid⟩, hclv⟩
     by_cases ht : h = "trace"
     · simp only [ht, if_true]
       rw [ht] at hok
       have hfo : foResult "trace" vs (inBuiltin s1 s.data) = (.ok (vs.headD .nil),
           { inBuiltin s1 s.data with trace := (inBuiltin s1 s.data).trace ++ [pr (inBuiltin s1 s.data).heap (vs.headD .nil)] }) := by
         unfold foResult; rw [if_pos rfl]
-      exact hok _ _ { rs1 with trace := rs1.trace ++ [pr rs1.heap (vs.headD .nil)] } hfo rfl rfl rfl rfl rfl
+      exact hok _ _ { rs1 with trace := rs1.trace ++ [pr rs1.heap (vs.headD .nil)] } hfo rfl rfl rfl rfl rfl rfl
         rel1.heap (by show (inBuiltin s1 s.data).trace ++ [pr (inBuiltin s1 s.data).heap _] = _; rw [hheapb, htrb])
+        rel1.clean (by cases vs with | nil => trivial | cons v0 _ => exact hclvs v0 List.mem_cons_self)
     · simp only [ht, if_false]
       cases hp : prim h vs rs1.heap with
       | some r =>
@@ -975,12 +1157,13 @@ theorem simC_call {m : Nat} (hA : CClaimA (m + 1)) (h : String) (hh : h ∈ foBu
         have hfo : foResult h vs (inBuiltin s1 s.data) = (.ok v, { inBuiltin s1 s.data with heap := hp' }) := by
           unfold foResult; rw [if_neg ht, hheapb, hp]
         simp only
-        exact hok v _ { rs1 with heap := hp' } hfo rfl rfl rfl rfl rfl rfl rel1.trace
+        have hpc := prim_clean h (foBuiltins_prim hh ht) vs rs1.heap v hp' hp hclvs rel1.clean.2
+        exact hok v _ { rs1 with heap := hp' } hfo rfl rfl rfl rfl rfl rfl rfl rel1.trace ⟨rel1.clean.1, hpc.2⟩ hpc.1
       | none =>
         have hfo : foResult h vs (inBuiltin s1 s.data) = (.error .err, inBuiltin s1 s.data) := by
           unfold foResult; rw [if_neg ht, hheapb, hp]
         simp only
-        refine FailsE.step hseg.head (M + 3) (fun f hf => ?_)
+        refine FailsX.step hseg.head (M + 3) (fun f hf => ?_)
         obtain ⟨G, rfl⟩ : ∃ G, f = G + 3 := ⟨f - 3, by omega⟩
         refine ⟨_, by rw [hexec (G + 1), run_bind, hM (G + 1 + 1) (by omega)]; simp only; rw [hlen, hcu G, hfo], ?_⟩
         show ((restore (capPopped s1 s.data)).run (inBuiltin s1 s.data)).2.trace = _
@@ -989,7 +1172,7 @@ theorem simC_call {m : Nat} (hA : CClaimA (m + 1)) (h : String) (hh : h ∈ foBu
     rw [h1] at hprep
     obtain ⟨M, hM⟩ := hprep
     simp only
-    refine FailsE.step hseg.head (M + 2) (fun f hf => ?_)
+    refine FailsX.step hseg.head (M + 2) (fun f hf => ?_)
     obtain ⟨F, rfl⟩ : ∃ F, f = F + 2 := ⟨f - 2, by omega⟩
     obtain ⟨se, hse, htr⟩ := hM (F + 1) (by omega)
     exact ⟨{ se with data := truncate se.data s.data.length }, by rw [hexec F, run_bind, hse], htr⟩
@@ -1000,20 +1183,20 @@ theorem simC_call {m : Nat} (hA : CClaimA (m + 1)) (h : String) (hh : h ∈ foBu
 /-! ## The parallel bindings of `let` -/
 
 theorem vm_defineAllC : ∀ (ps : List (String × Val)) (s : St) (rs : Ref.St) (fr : Nat) (P Q : List Instr)
-    (D : List (Option Val)), (∀ p ∈ ps, okBinder p.1 = true) →
+    (D : List (Option Val)), (∀ p ∈ ps, okBinder p.1 = true) → (∀ p ∈ ps, Clean p.2) →
     Seg s P (ps.map (fun p => Instr.popStackPutEnv p.1)) Q → s.data = ps.map (fun p => some p.2) ++ D → RelC s rs fr →
     match defineAll rs fr ps with
     | some rs' => ∃ s', Reach ps.length 1 s s' ∧ fnOf s' s'.curfunc = fnOf s s.curfunc
         ∧ s'.pc = s.pc + (ps.length : Int) ∧ s'.data = D ∧ RelC s' rs' fr ∧ FramesExt rs rs' ∧ Frame s s'
     | none => Fails ps.length s rs.trace
-  | [], s, rs, fr, P, Q, D, _, _, hd, hrel => by
+  | [], s, rs, fr, P, Q, D, _, _, _, hd, hrel => by
     simp only [defineAll]
     exact ⟨s, Reach.refl s |>.mono (Nat.le_refl _) (by simp), rfl, by simp, by simpa using hd, hrel, FramesExt.refl rs,
       Frame.refl s⟩
-  | (x, v) :: ps, s, rs, fr, P, Q, D, hok, hseg, hd, hrel => by
+  | (x, v) :: ps, s, rs, fr, P, Q, D, hok, hcl, hseg, hd, hrel => by
     simp only [List.map_cons] at hseg hd
     have a1 : At s P (.popStackPutEnv x) (ps.map (fun p => Instr.popStackPutEnv p.1) ++ Q) := hseg.head
-    have hp := psp_stepC a1 hd hrel (hok (x, v) List.mem_cons_self)
+    have hp := psp_stepC a1 hd hrel (hok (x, v) List.mem_cons_self) (hcl (x, v) List.mem_cons_self)
     simp only [defineAll]
     cases hdef : Ref.define rs fr x v with
     | none =>
@@ -1027,7 +1210,8 @@ theorem vm_defineAllC : ∀ (ps : List (String × Val)) (s : St) (rs : Ref.St) (
           (ps.map (fun p => Instr.popStackPutEnv p.1)) Q :=
         hseg.move (s' := (s.jmp (s.pc + 1) (ps.map (fun p => some p.2) ++ D)).bind fr x v) rfl (by simp)
           (by show s.pc + 1 = _; rw [hseg.pc]; simp)
-      have ih := vm_defineAllC ps _ rs1 fr _ Q D (fun p hp => hok p (List.mem_cons_of_mem _ hp)) hseg1 rfl rel1
+      have ih := vm_defineAllC ps _ rs1 fr _ Q D (fun p hp => hok p (List.mem_cons_of_mem _ hp))
+        (fun p hp => hcl p (List.mem_cons_of_mem _ hp)) hseg1 rfl rel1
       cases hda : defineAll rs1 fr ps with
       | none =>
         rw [hda] at ih
@@ -1065,12 +1249,12 @@ theorem cclaimN_succ {n : Nat} (hE : CClaimE n) (hN : CClaimN n) : CClaimN (n + 
         cases h1 : Ref.eval n e env rs with
         | ok v1 rs1 =>
           rw [h1] at ih
-          obtain ⟨s1, r1, l1, rel1, ext1, fr1⟩ := ih
+          obtain ⟨s1, r1, l1, rel1, ext1, fr1, hcl1⟩ := ih
           obtain ⟨r2, m2⟩ := glue_pop hseg l1
           have ih2 := hN (e' :: es') (by simp) hes.2 isFn c oldtail gs1 (rb, gs2) hb hfn _ rs1 env _ post (rel1.jmp _ _)
             (hseg.moved m2 (c₁ := ra.1 ++ [.pop]) (c₂ := rb.1) (post' := post) rfl (by simp))
-          exact SimC.seq (r1.trans r2.toE) m2 ext1 (fr1.trans (Frame.jmp _ _ _)) ih2 (by lenarith) (by lenarith)
-        | err rs1 => rw [h1] at ih; exact SimC.prefix ih (fun _ _ hh => by cases hh) (by lenarith)
+          exact SimC.seq (r1.trans r2.toX) m2 ext1 (fr1.trans (Frame.jmp _ _ _)) ih2 (by lenarith)
+        | err rs1 => rw [h1] at ih; exact SimC.prefix ih (fun _ _ hh => by cases hh)
         | timeout => trivial
         | brk l rs1 => rw [h1] at ih; exact ih.elim
         | cont l rs1 => rw [h1] at ih; exact ih.elim
@@ -1083,7 +1267,7 @@ theorem cclaimL_succ {n : Nat} (hE : CClaimE n) (hL : CClaimL n) : CClaimL (n + 
   | [] =>
     rw [compileBinds] at hc; simp only [g_pure_ok] at hc; subst hc
     rw [Ref.evalLetSeq]
-    · exact ⟨s, ReachE.refl s, Moved.refl s, hrel, FramesExt.refl rs, Frame.refl s⟩
+    · exact ⟨s, ReachX.refl s, Moved.refl s, hrel, FramesExt.refl rs, Frame.refl s⟩
     · omega
   | (x, e) :: bs' =>
     rw [FcBinds] at hbs
@@ -1100,16 +1284,16 @@ theorem cclaimL_succ {n : Nat} (hE : CClaimE n) (hL : CClaimL n) : CClaimL (n + 
     cases h1 : Ref.eval n e env rs with
     | ok v1 rs1 =>
       rw [h1] at ih
-      obtain ⟨s1, r1, l1, rel1, ext1, fr1⟩ := ih
+      obtain ⟨s1, r1, l1, rel1, ext1, fr1, hcl1⟩ := ih
       simp only
       have a2 : At s1 (pre ++ ra.1) (.popStackPutEnv x) (rb.1 ++ post) :=
         hseg.landed l1 (c₁ := ra.1) (by simp) rfl
-      have hp := psp_stepC a2 l1.data rel1 hbs.1.1
+      have hp := psp_stepC a2 l1.data rel1 hbs.1.1 hcl1
       cases hdef : Ref.define rs1 env x v1 with
       | none =>
         rw [hdef] at hp
         simp only
-        exact (FailsE.of_reach r1 hp.toE).mono (by lenarith)
+        exact (FailsX.of_reach r1 hp.toX)
       | some rs2 =>
         rw [hdef] at hp
         obtain ⟨r2, rel2, ext2⟩ := hp
@@ -1122,15 +1306,15 @@ theorem cclaimL_succ {n : Nat} (hE : CClaimE n) (hL : CClaimL n) : CClaimL (n + 
         | ok u rs3 =>
           rw [h2] at ih2
           obtain ⟨s3, r3, m3, rel3, ext3, fr3⟩ := ih2
-          exact ⟨s3, ((r1.trans r2.toE).trans r3).mono (by lenarith),
+          exact ⟨s3, ((r1.trans r2.toX).trans r3),
             ⟨m3.fn.trans m2.fn, by rw [m3.pc, m2.pc]; simp only [List.length_append, List.length_cons, List.length_nil]; push_cast; omega,
               m3.data.trans m2.data⟩, rel3, (ext1.trans ext2).trans ext3,
             (fr1.trans ((Frame.jmp _ _ _).trans (Frame.bind _ _ _ _))).trans fr3⟩
-        | err rs3 => rw [h2] at ih2; exact (FailsE.of_reach (r1.trans r2.toE) ih2).mono (by lenarith)
+        | err rs3 => rw [h2] at ih2; exact (FailsX.of_reach (r1.trans r2.toX) ih2)
         | timeout => trivial
         | brk l rs3 => rw [h2] at ih2; exact ih2.elim
         | cont l rs3 => rw [h2] at ih2; exact ih2.elim
-    | err rs1 => rw [h1] at ih; exact FailsE.mono ih (by lenarith)
+    | err rs1 => rw [h1] at ih; exact ih
     | timeout => trivial
     | brk l rs1 => rw [h1] at ih; exact ih.elim
     | cont l rs1 => rw [h1] at ih; exact ih.elim
@@ -1142,7 +1326,7 @@ theorem cclaimP_succ {n : Nat} (hE : CClaimE n) (hP : CClaimP n) : CClaimP (n + 
     rw [compileBinds] at hc; simp only [g_pure_ok] at hc; subst hc
     simp only [List.map_nil]
     rw [Ref.evalList]
-    · exact ⟨s, ReachE.refl s, rfl, by simp, by simp, hrel, FramesExt.refl rs, Frame.refl s⟩
+    · exact ⟨s, ReachX.refl s, rfl, by simp, by simp, hrel, FramesExt.refl rs, Frame.refl s, fun v hv => by cases hv⟩
     · omega
   | (x, e) :: bs' =>
     rw [FcBinds] at hbs
@@ -1158,22 +1342,26 @@ theorem cclaimP_succ {n : Nat} (hE : CClaimE n) (hP : CClaimP n) : CClaimP (n + 
     cases h1 : Ref.eval n e env rs with
     | ok v1 rs1 =>
       rw [h1] at ih
-      obtain ⟨s1, r1, l1, rel1, ext1, fr1⟩ := ih
+      obtain ⟨s1, r1, l1, rel1, ext1, fr1, hcl1⟩ := ih
       simp only
       have ih2 := hP bs' hbs.2 isFn _ gs1 (rb, gs2) hb hfn s1 rs1 env (pre ++ ra.1) post rel1
         (hseg.move l1.fn (by simp) (by rw [l1.pc, hseg.pc]; simp))
       cases h2 : Ref.evalList n (bs'.map (·.2)) env rs1 with
       | ok vs rs2 =>
         rw [h2] at ih2
-        obtain ⟨s2, r2, hfn2, hpc2, hdata2, rel2, ext2, fr2⟩ := ih2
-        refine ⟨s2, (r1.trans r2).mono (by lenarith), hfn2.trans l1.fn, ?_, ?_, rel2, ext1.trans ext2, fr1.trans fr2⟩
+        obtain ⟨s2, r2, hfn2, hpc2, hdata2, rel2, ext2, fr2, hcl2⟩ := ih2
+        refine ⟨s2, (r1.trans r2), hfn2.trans l1.fn, ?_, ?_, rel2, ext1.trans ext2, fr1.trans fr2,
+          fun w hw => ?_⟩
         · rw [hpc2, l1.pc]; simp only [List.length_append]; push_cast; omega
         · rw [hdata2, l1.data]; simp
-      | err rs2 => rw [h2] at ih2; exact (FailsE.of_reach r1 ih2).mono (by lenarith)
+        · rcases List.mem_cons.mp hw with rfl | hw
+          · exact hcl1
+          · exact hcl2 w hw
+      | err rs2 => rw [h2] at ih2; exact (FailsX.of_reach r1 ih2)
       | timeout => trivial
       | brk l rs2 => rw [h2] at ih2; exact ih2.elim
       | cont l rs2 => rw [h2] at ih2; exact ih2.elim
-    | err rs1 => rw [h1] at ih; exact FailsE.mono ih (by lenarith)
+    | err rs1 => rw [h1] at ih; exact ih
     | timeout => trivial
     | brk l rs1 => rw [h1] at ih; exact ih.elim
     | cont l rs1 => rw [h1] at ih; exact ih.elim
@@ -1184,7 +1372,7 @@ theorem cclaimV_succ {n : Nat} (hE : CClaimE n) (hV : CClaimV n) : CClaimV (n + 
   | [] =>
     rw [compileAll] at hc; simp only [g_pure_ok] at hc; subst hc
     rw [Ref.evalList]
-    · exact ⟨s, ReachE.refl s, rfl, by simp, by simp, hrel, FramesExt.refl rs, Frame.refl s⟩
+    · exact ⟨s, ReachX.refl s, rfl, by simp, by simp, hrel, FramesExt.refl rs, Frame.refl s, fun v hv => by cases hv⟩
     · omega
   | e :: es' =>
     rw [FcList] at hes
@@ -1197,22 +1385,26 @@ theorem cclaimV_succ {n : Nat} (hE : CClaimE n) (hV : CClaimV n) : CClaimV (n + 
     cases h1 : Ref.eval n e env rs with
     | ok v1 rs1 =>
       rw [h1] at ih
-      obtain ⟨s1, r1, l1, rel1, ext1, fr1⟩ := ih
+      obtain ⟨s1, r1, l1, rel1, ext1, fr1, hcl1⟩ := ih
       simp only
       have ih2 := hV es' hes.2 isFn _ gs1 (rb, gs2) hb hfn s1 rs1 env (pre ++ ra.1) post rel1
         (hseg.move l1.fn (by simp) (by rw [l1.pc, hseg.pc]; simp))
       cases h2 : Ref.evalList n es' env rs1 with
       | ok vs rs2 =>
         rw [h2] at ih2
-        obtain ⟨s2, r2, hfn2, hpc2, hdata2, rel2, ext2, fr2⟩ := ih2
-        refine ⟨s2, (r1.trans r2).mono (by lenarith), hfn2.trans l1.fn, ?_, ?_, rel2, ext1.trans ext2, fr1.trans fr2⟩
+        obtain ⟨s2, r2, hfn2, hpc2, hdata2, rel2, ext2, fr2, hcl2⟩ := ih2
+        refine ⟨s2, (r1.trans r2), hfn2.trans l1.fn, ?_, ?_, rel2, ext1.trans ext2, fr1.trans fr2,
+          fun w hw => ?_⟩
         · rw [hpc2, l1.pc]; simp only [List.length_append]; push_cast; omega
         · rw [hdata2, l1.data]; simp
-      | err rs2 => rw [h2] at ih2; exact (FailsE.of_reach r1 ih2).mono (by lenarith)
+        · rcases List.mem_cons.mp hw with rfl | hw
+          · exact hcl1
+          · exact hcl2 w hw
+      | err rs2 => rw [h2] at ih2; exact (FailsX.of_reach r1 ih2)
       | timeout => trivial
       | brk l rs2 => rw [h2] at ih2; exact ih2.elim
       | cont l rs2 => rw [h2] at ih2; exact ih2.elim
-    | err rs1 => rw [h1] at ih; exact FailsE.mono ih (by lenarith)
+    | err rs1 => rw [h1] at ih; exact ih
     | timeout => trivial
     | brk l rs1 => rw [h1] at ih; exact ih.elim
     | cont l rs1 => rw [h1] at ih; exact ih.elim
@@ -1241,12 +1433,12 @@ theorem cclaimB_succ {n : Nat} (hE : CClaimE n) (hB : CClaimB n) : CClaimB (n + 
         cases h1 : Ref.eval n e env rs with
         | ok v1 rs1 =>
           rw [h1] at ih
-          obtain ⟨s1, r1, l1, rel1, ext1, fr1⟩ := ih
+          obtain ⟨s1, r1, l1, rel1, ext1, fr1, hcl1⟩ := ih
           obtain ⟨r2, m2⟩ := glue_pop hseg l1
           have ih2 := hB (e' :: es') (by simp) hes.2 isFn c gs1 (rb, gs2) hb hfn _ rs1 env _ post (rel1.jmp _ _)
             (hseg.moved m2 (c₁ := ra.1 ++ [.pop]) (c₂ := rb.1) (post' := post) rfl (by simp))
-          exact SimC.seq (r1.trans r2.toE) m2 ext1 (fr1.trans (Frame.jmp _ _ _)) ih2 (by lenarith) (by lenarith)
-        | err rs1 => rw [h1] at ih; exact SimC.prefix ih (fun _ _ hh => by cases hh) (by lenarith)
+          exact SimC.seq (r1.trans r2.toX) m2 ext1 (fr1.trans (Frame.jmp _ _ _)) ih2 (by lenarith)
+        | err rs1 => rw [h1] at ih; exact SimC.prefix ih (fun _ _ hh => by cases hh)
         | timeout => trivial
         | brk l rs1 => rw [h1] at ih; exact ih.elim
         | cont l rs1 => rw [h1] at ih; exact ih.elim
@@ -1275,7 +1467,7 @@ theorem cclaimC_succ {n : Nat} (hE : CClaimE n) (hC : CClaimC n) : CClaimC (n + 
     cases h1 : Ref.eval n p env rs with
     | ok v1 rs1 =>
       rw [h1] at ih
-      obtain ⟨s1, r1, l1, rel1, ext1, fr1⟩ := ih
+      obtain ⟨s1, r1, l1, rel1, ext1, fr1, hcl1⟩ := ih
       simp only
       by_cases ht : truthy v1 = true
       · rw [if_pos ht]
@@ -1284,15 +1476,15 @@ theorem cclaimC_succ {n : Nat} (hE : CClaimE n) (hC : CClaimC n) : CClaimC (n + 
           (hseg.moved m2 (c₁ := rp.1 ++ [.branch false (rb.1.length + 2)]) (c₂ := rb.1)
             (post' := [.jump ((asmCond rest rd.1.1).length + 1)] ++ asmCond rest rd.1.1 ++ post)
             (by simp) (by simp))
-        exact SimC.cond_exit hseg (r1.trans r2.toE) m2 ext1 (fr1.trans (Frame.jmp _ _ _)) ih2 (Nat.le_refl _)
+        exact SimC.cond_exit hseg (r1.trans r2.toX) m2 ext1 (fr1.trans (Frame.jmp _ _ _)) ih2
       · rw [if_neg ht]
         obtain ⟨r2, m2⟩ := glue_brn_taken hseg l1 (by simpa using ht)
         have ih2 := hC arms' d harms.2 hd isFn c gs (rest, gs1) gs0 rd hrest hcd hfn _ rs1 env _ post (rel1.jmp _ _)
           (hseg.moved m2 (c₁ := rp.1 ++ [.branch false (rb.1.length + 2)] ++ rb.1
               ++ [.jump ((asmCond rest rd.1.1).length + 1)]) (c₂ := asmCond rest rd.1.1) (post' := post)
             (by simp) (by lenarith))
-        exact SimC.seq (r1.trans r2.toE) m2 ext1 (fr1.trans (Frame.jmp _ _ _)) ih2 (by lenarith) (by lenarith)
-    | err rs1 => rw [h1] at ih; exact SimC.prefix ih (fun _ _ hh => by cases hh) (by lenarith)
+        exact SimC.seq (r1.trans r2.toX) m2 ext1 (fr1.trans (Frame.jmp _ _ _)) ih2 (by lenarith)
+    | err rs1 => rw [h1] at ih; exact SimC.prefix ih (fun _ _ hh => by cases hh)
     | timeout => trivial
     | brk l rs1 => rw [h1] at ih; exact ih.elim
     | cont l rs1 => rw [h1] at ih; exact ih.elim
@@ -1304,7 +1496,7 @@ theorem cclaimS_succ {n : Nat} (hE : CClaimE n) (hS : CClaimS n) : CClaimS (n + 
     rw [compileSC] at hc; simp only [g_pure_ok] at hc; subst hc
     rw [Ref.evalAndOr]
     · simp only [asmSC] at hseg ⊢
-      exact simC_push _ hrel hseg
+      exact simC_push _ trivial hrel hseg
     · omega
   | [e] =>
     rw [FcList] at hes
@@ -1336,19 +1528,19 @@ theorem cclaimS_succ {n : Nat} (hE : CClaimE n) (hS : CClaimS n) : CClaimS (n + 
         cases h1 : Ref.eval n e env rs with
         | ok v1 rs1 =>
           rw [h1] at ih
-          obtain ⟨s1, r1, l1, rel1, ext1, fr1⟩ := ih
+          obtain ⟨s1, r1, l1, rel1, ext1, fr1, hcl1⟩ := ih
           simp only
           by_cases ht : (truthy v1 == isOr) = true
           · rw [if_pos ht]
             obtain ⟨r2, l2⟩ := glue_sc_stop hseg l1 (by simpa using ht)
-            exact ⟨_, (r1.trans r2.toE).mono (by lenarith), l2, rel1.jmp _ _, ext1, fr1.trans (Frame.jmp _ _ _)⟩
+            exact ⟨_, (r1.trans r2.toX), l2, rel1.jmp _ _, ext1, fr1.trans (Frame.jmp _ _ _), hcl1⟩
           · rw [if_neg ht]
             obtain ⟨r2, m2⟩ := glue_sc_go hseg l1 (by simpa using ht)
             have ih2 := hS isOr (e' :: es') hes.2 isFn c gs (rest, gs1) hrest hfn _ rs1 env _ post (rel1.jmp _ _)
               (hseg.moved m2 (c₁ := ra.1 ++ [.dup, .branch isOr ((asmSC isOr rest).length + 2), .pop])
                 (c₂ := asmSC isOr rest) (post' := post) (by simp) (by simp))
-            exact SimC.seq (r1.trans r2.toE) m2 ext1 (fr1.trans (Frame.jmp _ _ _)) ih2 (by lenarith) (by lenarith)
-        | err rs1 => rw [h1] at ih; exact SimC.prefix ih (fun _ _ hh => by cases hh) (by lenarith)
+            exact SimC.seq (r1.trans r2.toX) m2 ext1 (fr1.trans (Frame.jmp _ _ _)) ih2 (by lenarith)
+        | err rs1 => rw [h1] at ih; exact SimC.prefix ih (fun _ _ hh => by cases hh)
         | timeout => trivial
         | brk l rs1 => rw [h1] at ih; exact ih.elim
         | cont l rs1 => rw [h1] at ih; exact ih.elim
@@ -1369,9 +1561,9 @@ def afterBuiltin (s₁ : St) (D : List (Option Val)) (v : Val) (hp : DataHeap) :
 /-- `[e₁ … eₙ]`, after the elements have been pushed: `CallInstr{array, n}` allocates the array -/
 theorem simC_arr_tail {s s₁ : St} {rs rs₁ : Ref.St} {env : Nat} {pre post ca : List Instr} {vs : List Val} {k : Nat}
     (h : Seg s pre (ca ++ [.callArr k]) post) (hk : k = vs.length)
-    (r1 : ReachE ca.length s s₁) (hfn1 : fnOf s₁ s₁.curfunc = fnOf s s.curfunc)
+    (r1 : ReachX s s₁) (hfn1 : fnOf s₁ s₁.curfunc = fnOf s s.curfunc)
     (hpc1 : s₁.pc = s.pc + (ca.length : Int)) (hd1 : s₁.data = vs.reverse.map some ++ s.data)
-    (rel1 : RelC s₁ rs₁ env) (ext1 : FramesExt rs rs₁) (fr1 : Frame s s₁) :
+    (rel1 : RelC s₁ rs₁ env) (ext1 : FramesExt rs rs₁) (fr1 : Frame s s₁) (hclvs : ∀ v ∈ vs, Clean v) :
     SimC (ca ++ [.callArr k]) s rs env
       (match rs₁.heap.alloc vs with | (a, hp) => .ok a { rs₁ with heap := hp }) := by
   have a2 : At s₁ (pre ++ ca) (.callArr k) post :=
@@ -1389,12 +1581,471 @@ theorem simC_arr_tail {s s₁ : St} {rs rs₁ : Ref.St} {env : Nat} {pre post ca
     rfl
   have hlen : (ca ++ [Instr.callArr k]).length = ca.length + 1 := by simp
   show SimC _ s rs env (.ok (rs₁.heap.alloc vs).1 { rs₁ with heap := (rs₁.heap.alloc vs).2 })
-  refine ⟨_, (r1.trans (ReachE.step a2 2 hx)).mono (by rw [hlen]; exact Nat.le_refl _), ⟨?_, ?_, rfl⟩,
-    rel1.of_same rfl rfl rfl rfl rfl rfl rel1.trace, ext1.trans (fun i fr hf => ⟨fr, hf, rfl⟩),
-    fr1.trans ⟨rfl, rfl, rfl, rfl, Nat.le_refl _, fun _ _ => rfl⟩⟩
+  refine ⟨_, (r1.trans (ReachX.step a2 2 hx)), ⟨?_, ?_, rfl⟩,
+    rel1.of_same rfl rfl rfl rfl rfl rfl rel1.trace ⟨rel1.clean.1, cleanHeap_alloc rel1.clean.2 vs hclvs⟩,
+    ext1.trans (fun i fr hf => ⟨fr, hf, rfl⟩),
+    fr1.trans ⟨rfl, rfl, rfl, rfl, Nat.le_refl _, fun _ _ => rfl, Nat.le_refl _, fun _ _ => rfl⟩, trivial⟩
   · exact hfn1
   · show s₁.pc + 1 = _
     rw [hpc1, hlen]; push_cast; omega
+
+/-! ## `for` loops (without `break`/`continue`) -/
+
+/-- the layout `GenerateForLoop` produces, with the offsets computed -/
+theorem forCode_eq (L : Nat) (i t s b : List Instr) : forCode L i t s b =
+    [.loopStart L, .addScope, .pushMark L, .label] ++ i ++ [.popUntilMark L, .jump ((s.length : Int) + 3), .label]
+      ++ s ++ [.popUntilMark L, .label] ++ t ++ [.branch false ((b.length : Int) + 4), .label] ++ b
+      ++ [.popUntilMark L, .jump (-((s.length : Int) + t.length + b.length + 6)), .label,
+          .clearMark L, .removeScope, .push .nil] := by
+  unfold forCode
+  simp only [asmFor, List.length_append, List.length_cons, List.length_nil, List.append_assoc, List.cons_append,
+    List.nil_append]
+  have h1 : ((s.length + (0 + 1) : Nat) : Int) + 2 = (s.length : Int) + 3 := by push_cast; omega
+  have h2 : ((b.length + (0 + 1) : Nat) : Int) + 3 = (b.length : Int) + 4 := by push_cast; omega
+  have h3 : ((i.length + (0 + 1 + 1) + 1 + 1 + 1 + 1 : Nat) : Int)
+      - ((i.length + (s.length + (t.length + (b.length + (0 + 1) + 1 + 1) + 1 + 1) + 1 + 1 + 1) + 1 + 1 + 1 + 1 : Nat) : Int)
+      = -((s.length : Int) + t.length + b.length + 6) := by push_cast; omega
+  rw [h1, h2, h3]
+
+/-- `σ` runs inside the compiled function whose code is `full` -/
+structure InFn (σ : St) (full : List Instr) : Prop where
+  user : (fnOf σ σ.curfunc).user = false
+  code : (fnOf σ σ.curfunc).code = full
+
+theorem InFn.of_fn {σ σ' : St} {full} (h : InFn σ full) (hf : fnOf σ' σ'.curfunc = fnOf σ σ.curfunc) : InFn σ' full :=
+  ⟨by rw [hf]; exact h.user, by rw [hf]; exact h.code⟩
+
+theorem InFn.at {σ : St} {full P Q : List Instr} {i : Instr} (h : InFn σ full) (hc : full = P ++ i :: Q)
+    (hp : σ.pc = (P.length : Int)) : At σ P i Q := ⟨h.user, by rw [h.code, hc], hp⟩
+
+theorem InFn.seg {σ : St} {full P c Q : List Instr} (h : InFn σ full) (hc : full = P ++ c ++ Q)
+    (hp : σ.pc = (P.length : Int)) : Seg σ P c Q := ⟨h.user, by rw [h.code, hc], hp⟩
+
+theorem Seg.inFn {σ : St} {P c Q : List Instr} (h : Seg σ P c Q) : InFn σ (P ++ c ++ Q) := ⟨h.user, h.code⟩
+
+/-- a `label` / `loopStart` is a no-op -/
+theorem reachX_label {σ : St} {P Q : List Instr} (a : At σ P .label Q) : ReachX σ (σ.jmp (σ.pc + 1) σ.data) :=
+  (Reach.step a (fun f => exec_label f σ)).toX
+
+/-- the outcome of a piece of loop code that ends in `popUntilMark`: back on the mark -/
+def OnMark {α : Type} (σ : St) (rs : Ref.St) (fr L : Nat) (D : List (Option Val)) (target : Int) (res : Ref.R α) : Prop :=
+  match res with
+  | .ok _ rs' => ∃ σ', ReachX σ σ' ∧ σ'.pc = target ∧ σ'.data = some (.mark L) :: D
+      ∧ fnOf σ' σ'.curfunc = fnOf σ σ.curfunc ∧ RelC σ' rs' fr ∧ FramesExt rs rs' ∧ Frame σ σ'
+  | .err rs' => FailsX σ rs'.trace
+  | .timeout => True
+  | .brk _ _ => False
+  | .cont _ _ => False
+
+/-- code `c` (simulating `res`) followed by `popUntilMark L`, started on the mark -/
+theorem seg_pum {σ : St} {rs : Ref.St} {fr L : Nat} {D : List (Option Val)} {full P c Q : List Instr}
+    {res : Ref.R Val} (hin : InFn σ full) (hc : full = P ++ c ++ (.popUntilMark L :: Q)) (hp : σ.pc = (P.length : Int))
+    (hd : σ.data = some (.mark L) :: D) (hsim : SimC c σ rs fr res) :
+    OnMark σ rs fr L D (σ.pc + (c.length : Int) + 1) res := by
+  cases res with
+  | ok v rs' =>
+    obtain ⟨σ1, r1, l1, rel1, ext1, fr1, hcl⟩ := hsim
+    have a1 : At σ1 (P ++ c) (.popUntilMark L) Q :=
+      (hin.of_fn l1.fn).at (by rw [hc]) (by rw [l1.pc, hp]; simp)
+    have hv : v ≠ .mark L := fun e => by subst e; exact hcl
+    have hx : ∀ f, (exec (f + 1) (.popUntilMark L)).run σ1 = (.ok (), σ1.jmp (σ1.pc + 1) (some (.mark L) :: D)) :=
+      fun f => exec_popUntilMark f L σ1 [some v] D (by rw [l1.data, hd]; rfl) (Or.inr ⟨v, rfl, hv⟩)
+    exact ⟨_, r1.trans (Reach.step a1 hx).toX, by rw [St.jmp_pc, l1.pc], rfl, l1.fn, rel1.jmp _ _, ext1,
+      fr1.trans (Frame.jmp _ _ _)⟩
+  | err rs' => exact hsim
+  | timeout => trivial
+  | brk l rs' => exact hsim
+  | cont l rs' => exact hsim
+
+theorem OnMark.of_reach {α : Type} {σ σ₁ : St} {rs rs₁ : Ref.St} {fr L : Nat} {D : List (Option Val)} {tgt : Int}
+    {res : Ref.R α} (hr : ReachX σ σ₁) (hfn : fnOf σ₁ σ₁.curfunc = fnOf σ σ.curfunc) (hext : FramesExt rs rs₁)
+    (hfr : Frame σ σ₁) (h : OnMark σ₁ rs₁ fr L D tgt res) : OnMark σ rs fr L D tgt res := by
+  cases res with
+  | ok a rs' =>
+    obtain ⟨σ', r, hp, hd, hf, rel, ext, fr'⟩ := h
+    exact ⟨σ', hr.trans r, hp, hd, hf.trans hfn, rel, hext.trans ext, hfr.trans fr'⟩
+  | err rs' => exact FailsX.of_reach hr h
+  | timeout => trivial
+  | brk l rs' => exact h
+  | cont l rs' => exact h
+
+/-- the fixed pieces of the loop layout -/
+abbrev fHd (L : Nat) : List Instr := [.loopStart L, .addScope, .pushMark L, .label]
+abbrev fMid (L : Nat) (cs : List Instr) : List Instr := [.popUntilMark L, .jump ((cs.length : Int) + 3), .label]
+abbrev fBr (cb : List Instr) : List Instr := [.branch false ((cb.length : Int) + 4), .label]
+abbrev fTl (L : Nat) (cs ct cb : List Instr) : List Instr :=
+  [.popUntilMark L, .jump (-((cs.length : Int) + ct.length + cb.length + 6)), .label, .clearMark L, .removeScope, .push .nil]
+
+/-- the whole function around a `for` loop, laid out -/
+def forFull (pre post : List Instr) (L : Nat) (ci ct cs cb : List Instr) : List Instr :=
+  pre ++ (fHd L ++ ci ++ fMid L cs ++ cs ++ [.popUntilMark L, .label] ++ ct ++ fBr cb ++ cb ++ fTl L cs ct cb) ++ post
+
+theorem forFull_eq (pre post : List Instr) (L : Nat) (ci ct cs cb : List Instr) :
+    pre ++ forCode L ci ct cs cb ++ post = forFull pre post L ci ct cs cb := by
+  rw [forCode_eq]; rfl
+
+/-- **One `for` loop from its test label on** (after the initialiser): test, exit branch or body,
+back jump, increment, again — against `Ref.loop`. The VM stands on the test label with the loop's
+stack mark on top of the data stack; it arrives on the end label with the mark on top again. -/
+def CClaimF (n : Nat) : Prop :=
+  ∀ (label : Option String) (test incr : Expr) (body : List Expr), Fc test = true → Fc incr = true → FcList body = true →
+  ∀ (isFn : Nat → Bool) (c : Ctx),
+  ∀ gb rb g2 gt rt g4 gi ri g5, (compileBegin isFn c body).run gb = .ok (rb, g2) →
+    (compile isFn c test).run gt = .ok (rt, g4) → (compile isFn c incr).run gi = .ok (ri, g5) → c.funcname = "" →
+  ∀ (L : Nat) (ci pre post : List Instr) (σ : St) (rs : Ref.St) (fr : Nat) (D : List (Option Val)),
+    InFn σ (forFull pre post L ci rt.1 ri.1 rb.1) →
+    σ.pc = ((pre.length + ci.length + ri.1.length + 8 : Nat) : Int) →
+    σ.data = some (.mark L) :: D → RelC σ rs fr →
+    OnMark σ rs fr L D ((pre.length + ci.length + ri.1.length + rt.1.length + rb.1.length + 13 : Nat) : Int)
+      (Ref.loop n label test incr body fr rs)
+
+/-- the body of a loop followed by `popUntilMark`; the body may be empty -/
+theorem body_pum {n : Nat} (hB : CClaimB n) {body : List Expr} (hbody : FcList body = true) {isFn : Nat → Bool} {c : Ctx}
+    (hfn : c.funcname = "") {gb rb g2} (hcb : (compileBegin isFn c body).run gb = .ok (rb, g2))
+    {σ : St} {rs : Ref.St} {fr L : Nat} {D : List (Option Val)} {full P Q : List Instr}
+    (hin : InFn σ full) (hc : full = P ++ rb.1 ++ (.popUntilMark L :: Q)) (hp : σ.pc = (P.length : Int))
+    (hd : σ.data = some (.mark L) :: D) (hrel : RelC σ rs fr) :
+    OnMark σ rs fr L D (σ.pc + (rb.1.length : Int) + 1) (Ref.evalBegin n body fr rs) := by
+  cases body with
+  | nil =>
+    rw [compileBegin] at hcb; simp only [g_pure_ok] at hcb
+    have hrb : rb.1 = [] := by rw [(Prod.mk.inj hcb).1]
+    cases n with
+    | zero => rw [Ref.evalBegin]; trivial
+    | succ m =>
+      rw [Ref.evalBegin]
+      · have a1 : At σ P (.popUntilMark L) Q := hin.at (by rw [hc, hrb]; simp) hp
+        have hx : ∀ f, (exec (f + 1) (.popUntilMark L)).run σ = (.ok (), σ.jmp (σ.pc + 1) (some (.mark L) :: D)) :=
+          fun f => exec_popUntilMark f L σ [] D (by rw [hd]; rfl) (Or.inl rfl)
+        exact ⟨_, (Reach.step a1 hx).toX, by rw [St.jmp_pc, hrb]; simp, rfl, rfl, hrel.jmp _ _, FramesExt.refl rs,
+          Frame.jmp _ _ _⟩
+      · omega
+  | cons e0 es0 =>
+    exact seg_pum hin hc hp hd
+      (hB (e0 :: es0) (by simp) hbody isFn c gb (rb, g2) hcb hfn σ rs fr P _ hrel (hin.seg (by rw [hc]) hp))
+
+theorem cclaimF_succ {n : Nat} (hE : CClaimE n) (hB : CClaimB n) (hF : CClaimF n) : CClaimF (n + 1) := by
+  intro label test incr body htest hincr hbody isFn c gb rb g2 gt rt g4 gi ri g5 hcb hct hci hfn
+    L ci pre post σ rs fr D hin hpc hd hrel
+  rw [Ref.loop]
+  -- the test label
+  have a0 : At σ (pre ++ fHd L ++ ci ++ fMid L ri.1 ++ ri.1 ++ [.popUntilMark L]) .label
+      (rt.1 ++ fBr rb.1 ++ rb.1 ++ fTl L ri.1 rt.1 rb.1 ++ post) :=
+    hin.at (by simp [forFull]) (by rw [hpc]; simp; omega)
+  have r0 := reachX_label a0
+  -- the test
+  have hseg1 : Seg (σ.jmp (σ.pc + 1) σ.data) (pre ++ fHd L ++ ci ++ fMid L ri.1 ++ ri.1 ++ [.popUntilMark L, .label]) rt.1
+      (fBr rb.1 ++ rb.1 ++ fTl L ri.1 rt.1 rb.1 ++ post) :=
+    (hin.of_fn (σ' := σ.jmp (σ.pc + 1) σ.data) rfl).seg (by simp [forFull]) (by rw [St.jmp_pc, hpc]; simp; omega)
+  have ih1 := hE test htest isFn c gt (rt, g4) hct hfn _ rs fr _ _ (hrel.jmp _ _) hseg1
+  cases h1 : Ref.eval n test fr rs with
+  | ok tv rs1 =>
+    rw [h1] at ih1
+    obtain ⟨σ2, r2, l2, rel2, ext2, fr2, _⟩ := ih1
+    simp only
+    have hin2 : InFn σ2 (forFull pre post L ci rt.1 ri.1 rb.1) := hin.of_fn (l2.fn.trans rfl)
+    have hpc2 : σ2.pc = ((pre.length + ci.length + ri.1.length + rt.1.length + 9 : Nat) : Int) := by
+      rw [l2.pc, St.jmp_pc, hpc]; push_cast; omega
+    have hd2 : σ2.data = some tv :: some (.mark L) :: D := by rw [l2.data, St.jmp_data, hd]
+    have a2 : At σ2 (pre ++ fHd L ++ ci ++ fMid L ri.1 ++ ri.1 ++ [.popUntilMark L, .label] ++ rt.1)
+        (.branch false ((rb.1.length : Int) + 4)) ([.label] ++ rb.1 ++ fTl L ri.1 rt.1 rb.1 ++ post) :=
+      hin2.at (by simp [forFull]) (by rw [hpc2]; simp; omega)
+    have hfr02 : Frame σ σ2 := (Frame.jmp _ _ _).trans fr2
+    by_cases htv : truthy tv = true
+    · -- the body
+      have hnt : (!truthy tv) = false := by rw [htv]; rfl
+      rw [if_neg (by rw [hnt]; decide)]
+      have r3 := (reach_branch_fall a2 hd2 (by rw [htv]; decide)).toX
+      have a3 : At (σ2.jmp (σ2.pc + 1) (some (.mark L) :: D))
+          (pre ++ fHd L ++ ci ++ fMid L ri.1 ++ ri.1 ++ [.popUntilMark L, .label] ++ rt.1
+            ++ [.branch false ((rb.1.length : Int) + 4)]) .label (rb.1 ++ fTl L ri.1 rt.1 rb.1 ++ post) :=
+        (hin2.of_fn (σ' := σ2.jmp (σ2.pc + 1) (some (.mark L) :: D)) rfl).at (by simp [forFull])
+          (by rw [St.jmp_pc, hpc2]; simp; omega)
+      have r4 := reachX_label a3
+      -- σ4: before the body
+      have hin4 : InFn ((σ2.jmp (σ2.pc + 1) (some (.mark L) :: D)).jmp ((σ2.jmp (σ2.pc + 1) (some (.mark L) :: D)).pc + 1)
+          (σ2.jmp (σ2.pc + 1) (some (.mark L) :: D)).data) (forFull pre post L ci rt.1 ri.1 rb.1) := hin2.of_fn rfl
+      have hb := body_pum hB hbody hfn hcb hin4
+        (P := pre ++ fHd L ++ ci ++ fMid L ri.1 ++ ri.1 ++ [.popUntilMark L, .label] ++ rt.1 ++ fBr rb.1)
+        (Q := [.jump (-((ri.1.length : Int) + rt.1.length + rb.1.length + 6)), .label, .clearMark L, .removeScope,
+          .push .nil] ++ post) (D := D) (by simp [forFull]) (by simp only [St.jmp_pc, hpc2]; simp; omega) rfl
+        ((rel2.jmp _ _).jmp _ _)
+      have hreach4 := ((r0.trans r2).trans r3).trans r4
+      have hfr4 : Frame σ ((σ2.jmp (σ2.pc + 1) (some (.mark L) :: D)).jmp ((σ2.jmp (σ2.pc + 1) (some (.mark L) :: D)).pc + 1)
+          (σ2.jmp (σ2.pc + 1) (some (.mark L) :: D)).data) := hfr02.trans ((Frame.jmp _ _ _).trans (Frame.jmp _ _ _))
+      refine OnMark.of_reach hreach4 (l2.fn.trans rfl) ext2 hfr4 ?_
+      cases h2 : Ref.evalBegin n body fr rs1 with
+      | ok vb rs2 =>
+        rw [h2] at hb
+        obtain ⟨σ6, r6, hpc6, hd6, hfn6, rel6, ext6, fr6⟩ := hb
+        simp only
+        have hin6 : InFn σ6 (forFull pre post L ci rt.1 ri.1 rb.1) := hin4.of_fn hfn6
+        have hpc6' : σ6.pc = ((pre.length + ci.length + ri.1.length + rt.1.length + rb.1.length + 12 : Nat) : Int) := by
+          rw [hpc6]; simp only [St.jmp_pc, hpc2]; push_cast; omega
+        -- the back jump
+        have a6 : At σ6 (pre ++ fHd L ++ ci ++ fMid L ri.1 ++ ri.1 ++ [.popUntilMark L, .label] ++ rt.1 ++ fBr rb.1 ++ rb.1
+            ++ [.popUntilMark L]) (.jump (-((ri.1.length : Int) + rt.1.length + rb.1.length + 6)))
+            ([.label, .clearMark L, .removeScope, .push .nil] ++ post) :=
+          hin6.at (by simp [forFull]) (by rw [hpc6']; simp; omega)
+        have r7 := (reach_jump a6 (by rw [hpc6']; push_cast; omega)
+          (by rw [hpc6']; simp only [List.length_append, List.length_cons, List.length_nil]; push_cast; omega)).toX
+        have hpc7 : (σ6.jmp (σ6.pc + -((ri.1.length : Int) + rt.1.length + rb.1.length + 6)) σ6.data).pc
+            = ((pre.length + ci.length + 6 : Nat) : Int) := by rw [St.jmp_pc, hpc6']; push_cast; omega
+        have a7 : At (σ6.jmp (σ6.pc + -((ri.1.length : Int) + rt.1.length + rb.1.length + 6)) σ6.data)
+            (pre ++ fHd L ++ ci ++ [.popUntilMark L, .jump ((ri.1.length : Int) + 3)]) .label
+            (ri.1 ++ [.popUntilMark L, .label] ++ rt.1 ++ fBr rb.1 ++ rb.1 ++ fTl L ri.1 rt.1 rb.1 ++ post) :=
+          (hin6.of_fn (σ' := σ6.jmp (σ6.pc + -((ri.1.length : Int) + rt.1.length + rb.1.length + 6)) σ6.data) rfl).at
+            (by simp [forFull]) (by rw [hpc7]; simp; omega)
+        have r8 := reachX_label a7
+        -- the increment
+        generalize hσ8 : ((σ6.jmp (σ6.pc + -((ri.1.length : Int) + rt.1.length + rb.1.length + 6)) σ6.data).jmp
+          ((σ6.jmp (σ6.pc + -((ri.1.length : Int) + rt.1.length + rb.1.length + 6)) σ6.data).pc + 1)
+          (σ6.jmp (σ6.pc + -((ri.1.length : Int) + rt.1.length + rb.1.length + 6)) σ6.data).data) = σ8 at r8
+        have hin8 : InFn σ8 (forFull pre post L ci rt.1 ri.1 rb.1) := by subst hσ8; exact hin6.of_fn rfl
+        have hpc8 : σ8.pc = ((pre.length + ci.length + 7 : Nat) : Int) := by
+          subst hσ8; rw [St.jmp_pc, hpc7]; push_cast; omega
+        have hd8 : σ8.data = some (.mark L) :: D := by subst hσ8; exact hd6
+        have rel8 : RelC σ8 rs2 fr := by subst hσ8; exact (rel6.jmp _ _).jmp _ _
+        have hfr68 : Frame σ6 σ8 := by subst hσ8; exact (Frame.jmp _ _ _).trans (Frame.jmp _ _ _)
+        have hfn68 : fnOf σ8 σ8.curfunc = fnOf σ6 σ6.curfunc := by subst hσ8; rfl
+        have hseg8 : Seg σ8 (pre ++ fHd L ++ ci ++ fMid L ri.1) ri.1
+            ([.popUntilMark L, .label] ++ rt.1 ++ fBr rb.1 ++ rb.1 ++ fTl L ri.1 rt.1 rb.1 ++ post) :=
+          hin8.seg (by simp [forFull]) (by rw [hpc8]; simp; omega)
+        have ih8 := hE incr hincr isFn c gi (ri, g5) hci hfn σ8 rs2 fr _ _ rel8 hseg8
+        have hs := seg_pum hin8 (P := pre ++ fHd L ++ ci ++ fMid L ri.1) (c := ri.1)
+          (Q := [.label] ++ rt.1 ++ fBr rb.1 ++ rb.1 ++ fTl L ri.1 rt.1 rb.1 ++ post) (by simp [forFull])
+          (by rw [hpc8]; simp; omega) hd8 ih8
+        refine OnMark.of_reach ((r6.trans r7).trans r8) (hfn68.trans hfn6) ext6 (fr6.trans hfr68) ?_
+        cases h3 : Ref.eval n incr fr rs2 with
+        | ok vs rs3 =>
+          rw [h3] at hs
+          obtain ⟨σ10, r10, hpc10, hd10, hfn10, rel10, ext10, fr10⟩ := hs
+          simp only
+          refine OnMark.of_reach r10 hfn10 ext10 fr10 ?_
+          exact hF label test incr body htest hincr hbody isFn c gb rb g2 gt rt g4 gi ri g5 hcb hct hci hfn
+            L ci pre post σ10 rs3 fr D (hin8.of_fn hfn10) (by rw [hpc10, hpc8]; push_cast; omega) hd10 rel10
+        | err rs3 => rw [h3] at hs; exact hs
+        | timeout => trivial
+        | brk l rs3 => rw [h3] at hs; exact hs.elim
+        | cont l rs3 => rw [h3] at hs; exact hs.elim
+      | err rs2 => rw [h2] at hb; exact hb
+      | timeout => trivial
+      | brk l rs2 => rw [h2] at hb; exact hb.elim
+      | cont l rs2 => rw [h2] at hb; exact hb.elim
+    · -- the exit branch
+      have hft : truthy tv = false := by simpa using htv
+      rw [if_pos (by rw [hft]; rfl)]
+      have r3 := (reach_branch_taken a2 hd2 (by rw [hft])
+        (by rw [hpc2]; push_cast; omega)
+        (by rw [hpc2]; simp only [List.length_append, List.length_cons, List.length_nil]; push_cast; omega)).toX
+      exact ⟨_, (r0.trans r2).trans r3, by rw [St.jmp_pc, hpc2]; push_cast; omega, rfl, l2.fn.trans rfl, rel2.jmp _ _, ext2,
+        hfr02.trans (Frame.jmp _ _ _)⟩
+  | err rs1 =>
+    rw [h1] at ih1
+    exact FailsX.of_reach r0 ih1
+  | timeout => trivial
+  | brk l rs1 => rw [h1] at ih1; exact ih1.elim
+  | cont l rs1 => rw [h1] at ih1; exact ih1.elim
+
+theorem ref_loop_nil : ∀ (n : Nat) (label : Option String) (test step : Expr) (body : List Expr) (fr : Nat) (rs : Ref.St)
+    (v : Val) (rs' : Ref.St), Ref.loop n label test step body fr rs = .ok v rs' → v = .nil
+  | 0, _, _, _, _, _, _, _, _, h => by rw [Ref.loop] at h; cases h
+  | n + 1, label, test, step, body, fr, rs, v, rs', h => by
+    rw [Ref.loop] at h
+    simp only at h
+    repeat' split at h
+    all_goals first
+      | (injection h with h1 _; exact h1.symm)
+      | exact ref_loop_nil n _ _ _ _ _ _ _ _ h
+      | cases h
+      | (exfalso; rename_i h1 h2 h3; exact h1 _ _ h)
+      | (exfalso; rename_i h1 h2; exact h1 _ _ h)
+      | skip
+
+/-- **A `for` loop** (no `break`/`continue` inside): `loopStart`, `addScope`, `pushMark`, the
+initialiser, the jump to the test, the iterations (`CClaimF`), the end label, `clearMark`,
+`removeScope`, `push nil` — against `newFrame`, `eval init`, `Ref.loop`. -/
+theorem cclaimE_for {n : Nat} (hE : CClaimE n) (hF : CClaimF n) {label : Option String} {init test incr : Expr}
+    {body : List Expr} (hinit : Fc init = true) (htest : Fc test = true) (hincr : Fc incr = true)
+    (hbody : FcList body = true) (isFn : Nat → Bool) (c : Ctx) (gs : GS) (r : (List Instr × Bool) × GS)
+    (hc : (compile isFn c (.for_ label init test incr body)).run gs = .ok r) (hfn : c.funcname = "")
+    (s : St) (rs : Ref.St) (env : Nat) (pre post : List Instr) (hrel : RelC s rs env) (hseg : Seg s pre r.1.1 post) :
+    SimC r.1.1 s rs env (Ref.eval (n + 1) (.for_ label init test incr body) env rs) := by
+  rw [compile_for_eq] at hc
+  cases hb : (compileBegin isFn { c with tail := false, scopes := c.scopes + 1 } body).run (forGs gs c label) with
+  | error e => rw [hb] at hc; cases hc
+  | ok vb =>
+  obtain ⟨rb, g2⟩ := vb
+  rw [hb] at hc; simp only at hc
+  cases hi : (compile isFn { c with tail := false, scopes := c.scopes + 1 } init).run g2 with
+  | error e => rw [hi] at hc; cases hc
+  | ok vi =>
+  obtain ⟨ri, g3⟩ := vi
+  rw [hi] at hc; simp only at hc
+  cases ht : (compile isFn { c with tail := false, scopes := c.scopes + 1 } test).run g3 with
+  | error e => rw [ht] at hc; cases hc
+  | ok vt =>
+  obtain ⟨rt, g4⟩ := vt
+  rw [ht] at hc; simp only at hc
+  cases hs : (compile isFn { c with tail := false, scopes := c.scopes + 1 } incr).run g4 with
+  | error e => rw [hs] at hc; cases hc
+  | ok vs =>
+  obtain ⟨rsn, g5⟩ := vs
+  rw [hs] at hc; simp only at hc
+  injection hc with hc
+  subst hc
+  simp only at hseg ⊢
+  -- the function laid out
+  have hin : InFn s (forFull pre post gs.loops.length ri.1 rt.1 rsn.1 rb.1) := by
+    have := hseg.inFn; rw [forFull_eq] at this; exact this
+  have hpc : s.pc = (pre.length : Int) := hseg.pc
+  rw [Ref.eval]
+  show SimC _ s rs env
+    (match Ref.eval n init rs.frames.length (Ref.newFrame rs env).2 with
+     | .ok _ s' => Ref.loop n label test incr body rs.frames.length s'
+     | .brk l s' => if l.isNone ∨ l = label then .ok .nil s' else .brk l s'
+     | r => r)
+  -- loopStart, addScope, pushMark, label
+  have a0 : At s pre (.loopStart gs.loops.length) ([.addScope, .pushMark gs.loops.length, .label] ++ ri.1
+      ++ fMid gs.loops.length rsn.1 ++ rsn.1 ++ [.popUntilMark gs.loops.length, .label] ++ rt.1 ++ fBr rb.1 ++ rb.1
+      ++ fTl gs.loops.length rsn.1 rt.1 rb.1 ++ post) := hin.at (by simp [forFull]) hpc
+  have r0 : ReachX s (s.jmp (s.pc + 1) s.data) := (Reach.step a0 (fun f => exec_loopStart f _ s)).toX
+  have a1 : At (s.jmp (s.pc + 1) s.data) (pre ++ [.loopStart gs.loops.length]) .addScope
+      ([.pushMark gs.loops.length, .label] ++ ri.1
+      ++ fMid gs.loops.length rsn.1 ++ rsn.1 ++ [.popUntilMark gs.loops.length, .label] ++ rt.1 ++ fBr rb.1 ++ rb.1
+      ++ fTl gs.loops.length rsn.1 rt.1 rb.1 ++ post) :=
+    (hin.of_fn (σ' := s.jmp (s.pc + 1) s.data) rfl).at (by simp [forFull]) (by rw [St.jmp_pc, hpc]; simp)
+  have r1 : ReachX (s.jmp (s.pc + 1) s.data) (s.jmp (s.pc + 1) s.data).pushScope :=
+    (Reach.step a1 (fun f => exec_addScope f _)).toX
+  generalize hs2 : (s.jmp (s.pc + 1) s.data).pushScope = s2 at r1
+  have hin2 : InFn s2 (forFull pre post gs.loops.length ri.1 rt.1 rsn.1 rb.1) := by subst hs2; exact hin.of_fn rfl
+  have hpc2 : s2.pc = ((pre.length + 2 : Nat) : Int) := by
+    subst hs2; show s.pc + 1 + 1 = _; rw [hpc]; push_cast; omega
+  have hd2 : s2.data = s.data := by subst hs2; rfl
+  have rel2 : RelC s2 (Ref.newFrame rs env).2 rs.frames.length := by subst hs2; exact (hrel.jmp _ _).pushScope
+  have hfr2 : Frame s.pushScope s2 := by subst hs2; exact ⟨rfl, rfl, rfl, rfl, Nat.le_refl _, fun _ _ => rfl, Nat.le_refl _, fun _ _ => rfl⟩
+  have hfn2 : fnOf s2 s2.curfunc = fnOf s s.curfunc := by subst hs2; rfl
+  have a2 : At s2 (pre ++ [.loopStart gs.loops.length, .addScope]) (.pushMark gs.loops.length) ([.label] ++ ri.1
+      ++ fMid gs.loops.length rsn.1 ++ rsn.1 ++ [.popUntilMark gs.loops.length, .label] ++ rt.1 ++ fBr rb.1 ++ rb.1
+      ++ fTl gs.loops.length rsn.1 rt.1 rb.1 ++ post) := hin2.at (by simp [forFull]) (by rw [hpc2]; simp)
+  have r2 := (Reach.step a2 (fun f => exec_pushMark f gs.loops.length s2)).toX
+  have a3 : At (s2.jmp (s2.pc + 1) (some (.mark gs.loops.length) :: s2.data))
+      (pre ++ [.loopStart gs.loops.length, .addScope, .pushMark gs.loops.length]) .label (ri.1
+      ++ fMid gs.loops.length rsn.1 ++ rsn.1 ++ [.popUntilMark gs.loops.length, .label] ++ rt.1 ++ fBr rb.1 ++ rb.1
+      ++ fTl gs.loops.length rsn.1 rt.1 rb.1 ++ post) :=
+    (hin2.of_fn (σ' := s2.jmp (s2.pc + 1) (some (.mark gs.loops.length) :: s2.data)) rfl).at (by simp [forFull])
+      (by rw [St.jmp_pc, hpc2]; simp; omega)
+  have r3 := reachX_label a3
+  generalize hs4 : ((s2.jmp (s2.pc + 1) (some (.mark gs.loops.length) :: s2.data)).jmp
+    ((s2.jmp (s2.pc + 1) (some (.mark gs.loops.length) :: s2.data)).pc + 1)
+    (s2.jmp (s2.pc + 1) (some (.mark gs.loops.length) :: s2.data)).data) = s4 at r3
+  have hin4 : InFn s4 (forFull pre post gs.loops.length ri.1 rt.1 rsn.1 rb.1) := by subst hs4; exact hin2.of_fn rfl
+  have hpc4 : s4.pc = ((pre.length + 4 : Nat) : Int) := by
+    subst hs4; simp only [St.jmp_pc, hpc2]; push_cast; omega
+  have hd4 : s4.data = some (.mark gs.loops.length) :: s.data := by subst hs4; rw [St.jmp_data, St.jmp_data, hd2]
+  have rel4 : RelC s4 (Ref.newFrame rs env).2 rs.frames.length := by subst hs4; exact (rel2.jmp _ _).jmp _ _
+  have hfr24 : Frame s2 s4 := by subst hs4; exact (Frame.jmp _ _ _).trans (Frame.jmp _ _ _)
+  have hfn4 : fnOf s4 s4.curfunc = fnOf s s.curfunc := by subst hs4; exact hfn2
+  have hreach4 : ReachX s s4 := ((r0.trans r1).trans r2).trans r3
+  -- the initialiser
+  have hseg4 : Seg s4 (pre ++ fHd gs.loops.length) ri.1 (fMid gs.loops.length rsn.1 ++ rsn.1
+      ++ [.popUntilMark gs.loops.length, .label] ++ rt.1 ++ fBr rb.1 ++ rb.1
+      ++ fTl gs.loops.length rsn.1 rt.1 rb.1 ++ post) := hin4.seg (by simp [forFull]) (by rw [hpc4]; simp)
+  have ih4 := hE init hinit isFn _ g2 (ri, g3) hi hfn s4 _ _ _ _ rel4 hseg4
+  have hs4' := seg_pum hin4 (P := pre ++ fHd gs.loops.length) (c := ri.1)
+    (Q := [.jump ((rsn.1.length : Int) + 3), .label] ++ rsn.1 ++ [.popUntilMark gs.loops.length, .label] ++ rt.1
+      ++ fBr rb.1 ++ rb.1 ++ fTl gs.loops.length rsn.1 rt.1 rb.1 ++ post) (by simp [forFull]) (by rw [hpc4]; simp) hd4 ih4
+  have hlen : (forCode gs.loops.length ri.1 rt.1 rsn.1 rb.1).length
+      = ri.1.length + rt.1.length + rsn.1.length + rb.1.length + 17 := by
+    rw [forCode_eq]; simp only [List.length_append, List.length_cons, List.length_nil]; omega
+  cases h1 : Ref.eval n init rs.frames.length (Ref.newFrame rs env).2 with
+  | ok vi rs2 =>
+    rw [h1] at hs4'
+    obtain ⟨s6, r6, hpc6, hd6, hfn6, rel6, ext6, fr6⟩ := hs4'
+    simp only
+    have hin6 : InFn s6 (forFull pre post gs.loops.length ri.1 rt.1 rsn.1 rb.1) := hin4.of_fn hfn6
+    have hpc6' : s6.pc = ((pre.length + ri.1.length + 5 : Nat) : Int) := by rw [hpc6, hpc4]; push_cast; omega
+    have a6 : At s6 (pre ++ fHd gs.loops.length ++ ri.1 ++ [.popUntilMark gs.loops.length])
+        (.jump ((rsn.1.length : Int) + 3)) ([.label] ++ rsn.1 ++ [.popUntilMark gs.loops.length, .label] ++ rt.1
+        ++ fBr rb.1 ++ rb.1 ++ fTl gs.loops.length rsn.1 rt.1 rb.1 ++ post) :=
+      hin6.at (by simp [forFull]) (by rw [hpc6']; simp; omega)
+    have r7 := (reach_jump a6 (by rw [hpc6']; push_cast; omega)
+      (by rw [hpc6']; simp only [List.length_append, List.length_cons, List.length_nil]; push_cast; omega)).toX
+    have hloop := hF label test incr body htest hincr hbody isFn _ _ rb g2 _ rt g4 _ rsn g5 hb ht hs hfn
+      gs.loops.length ri.1 pre post (s6.jmp (s6.pc + ((rsn.1.length : Int) + 3)) s6.data) rs2 rs.frames.length s.data
+      (hin6.of_fn rfl) (by rw [St.jmp_pc, hpc6']; push_cast; omega) hd6 (rel6.jmp _ _)
+    have hreach7 : ReachX s (s6.jmp (s6.pc + ((rsn.1.length : Int) + 3)) s6.data) := (hreach4.trans r6).trans r7
+    cases h2 : Ref.loop n label test incr body rs.frames.length rs2 with
+    | ok v rs3 =>
+      rw [h2] at hloop
+      obtain ⟨s8, r8, hpc8, hd8, hfn8, rel8, ext8, fr8⟩ := hloop
+      have hv : v = .nil := ref_loop_nil _ _ _ _ _ _ _ _ _ h2
+      subst hv
+      have hin8 : InFn s8 (forFull pre post gs.loops.length ri.1 rt.1 rsn.1 rb.1) := (hin6.of_fn rfl).of_fn hfn8
+      -- end label, clearMark, removeScope, push nil
+      have a8 : At s8 (pre ++ fHd gs.loops.length ++ ri.1 ++ fMid gs.loops.length rsn.1 ++ rsn.1
+          ++ [.popUntilMark gs.loops.length, .label] ++ rt.1 ++ fBr rb.1 ++ rb.1
+          ++ [.popUntilMark gs.loops.length, .jump (-((rsn.1.length : Int) + rt.1.length + rb.1.length + 6))]) .label
+          ([.clearMark gs.loops.length, .removeScope, .push .nil] ++ post) :=
+        hin8.at (by simp [forFull]) (by rw [hpc8]; simp; omega)
+      have r9 := reachX_label a8
+      have a9 : At (s8.jmp (s8.pc + 1) s8.data) (pre ++ fHd gs.loops.length ++ ri.1 ++ fMid gs.loops.length rsn.1 ++ rsn.1
+          ++ [.popUntilMark gs.loops.length, .label] ++ rt.1 ++ fBr rb.1 ++ rb.1
+          ++ [.popUntilMark gs.loops.length, .jump (-((rsn.1.length : Int) + rt.1.length + rb.1.length + 6)), .label])
+          (.clearMark gs.loops.length) ([.removeScope, .push .nil] ++ post) :=
+        (hin8.of_fn (σ' := s8.jmp (s8.pc + 1) s8.data) rfl).at (by simp [forFull]) (by rw [St.jmp_pc, hpc8]; simp; omega)
+      have r10 := (Reach.step a9 (fun f => exec_clearMark f gs.loops.length _ s.data hd8)).toX
+      generalize hs10 : (s8.jmp (s8.pc + 1) s8.data).jmp ((s8.jmp (s8.pc + 1) s8.data).pc + 1) s.data = s10 at r10
+      have hin10 : InFn s10 (forFull pre post gs.loops.length ri.1 rt.1 rsn.1 rb.1) := by subst hs10; exact hin8.of_fn rfl
+      have hpc10 : s10.pc = ((pre.length + ri.1.length + rsn.1.length + rt.1.length + rb.1.length + 15 : Nat) : Int) := by
+        subst hs10; simp only [St.jmp_pc, hpc8]; push_cast; omega
+      have rel10 : RelC s10 rs3 rs.frames.length := by subst hs10; exact (rel8.jmp _ _).jmp _ _
+      have hfr8_10 : Frame s8 s10 := by subst hs10; exact (Frame.jmp _ _ _).trans (Frame.jmp _ _ _)
+      have hd10 : s10.data = s.data := by subst hs10; rfl
+      have hfn10 : fnOf s10 s10.curfunc = fnOf s s.curfunc := by
+        subst hs10; exact (hfn8.trans (hfn6.trans hfn4))
+      -- everything between `addScope` and here left the control stacks alone
+      have hfr_in : Frame s.pushScope s10 :=
+        (((hfr2.trans hfr24).trans fr6).trans ((Frame.jmp _ _ _).trans fr8)).trans hfr8_10
+      obtain ⟨rest, hlin⟩ := rel10.chain.head
+      have a10 : At s10 (pre ++ fHd gs.loops.length ++ ri.1 ++ fMid gs.loops.length rsn.1 ++ rsn.1
+          ++ [.popUntilMark gs.loops.length, .label] ++ rt.1 ++ fBr rb.1 ++ rb.1
+          ++ [.popUntilMark gs.loops.length, .jump (-((rsn.1.length : Int) + rt.1.length + rb.1.length + 6)), .label,
+              .clearMark gs.loops.length]) .removeScope ([.push .nil] ++ post) :=
+        hin10.at (by simp [forFull]) (by rw [hpc10]; simp; omega)
+      have r11 : ReachX s10 s10.popScope := (Reach.step a10 (fun f => by
+        rw [exec_removeScope, hlin]
+        show _ = (Except.ok (), { s10 with pc := s10.pc + 1, linear := s10.linear.tail })
+        rw [hlin]; rfl)).toX
+      have a11 : At s10.popScope (pre ++ fHd gs.loops.length ++ ri.1 ++ fMid gs.loops.length rsn.1 ++ rsn.1
+          ++ [.popUntilMark gs.loops.length, .label] ++ rt.1 ++ fBr rb.1 ++ rb.1
+          ++ [.popUntilMark gs.loops.length, .jump (-((rsn.1.length : Int) + rt.1.length + rb.1.length + 6)), .label,
+              .clearMark gs.loops.length, .removeScope]) (.push .nil) post :=
+        (hin10.of_fn (σ' := s10.popScope) rfl).at (by simp [forFull])
+          (by show s10.pc + 1 = _; rw [hpc10]; simp; omega)
+      have r12 := reach_push a11 |>.toX
+      -- the relation after the loop
+      obtain ⟨f0, hf0, hp0⟩ := (ext6.trans ext8) rs.frames.length { parent := some env }
+        (by show (rs.frames ++ [_])[rs.frames.length]? = _; simp)
+      obtain ⟨hl, hcur, haddr, hsus⟩ := hfr_in.pushScope_inner
+      have hframe : Frame s s10.popScope := ⟨hl, hcur, haddr, hsus, hfr_in.fnsLen, hfr_in.fns, hfr_in.loopsLen, hfr_in.loops⟩
+      refine ⟨_, (((((hreach7.trans r8).trans r9).trans r10).trans r11).trans r12), ⟨hfn10, ?_, ?_⟩,
+        (⟨rel10.toRelCore.popScope f0 hf0 hp0, ?_, rel10.globals, rel10.clean⟩ : RelC s10.popScope rs3 env).jmp _ _,
+        (FramesExt.newFrame rs env).trans (ext6.trans ext8), hframe.trans (Frame.jmp _ _ _), trivial⟩
+      · show s10.pc + 1 + 1 = _
+        rw [hpc10, hpc, hlen]; push_cast; omega
+      · show some Val.nil :: s10.data = _
+        rw [hd10]
+      · rw [hcur]
+        exact hrel.fnchain.transfer ⟨[], by rw [hl]; rfl⟩ hframe.fnsLen hframe.fns
+    | err rs3 => rw [h2] at hloop; exact FailsX.of_reach hreach7 hloop
+    | timeout => trivial
+    | brk l rs3 => rw [h2] at hloop; exact hloop.elim
+    | cont l rs3 => rw [h2] at hloop; exact hloop.elim
+  | err rs2 => rw [h1] at hs4'; exact FailsX.of_reach hreach4 hs4'
+  | timeout => trivial
+  | brk l rs2 => rw [h1] at hs4'; exact hs4'.elim
+  | cont l rs2 => rw [h1] at hs4'; exact hs4'.elim
 
 /-! ## `let` with distinct names, and the expression step -/
 
@@ -1422,10 +2073,22 @@ theorem Globals.withVars_congr {rs : Ref.St} {fr : Nat} {fr0 : Ref.Frame} {va vb
   intro name hn
   exact ⟨by rw [key]; exact (h name hn).1, fun i hi => by rw [key]; exact (h name hn).2 i hi⟩
 
+theorem CleanSt.withVars_congr {rs : Ref.St} {fr : Nat} {fr0 : Ref.Frame} {va vb : List (String × Val)}
+    (h : CleanSt (withVars rs fr fr0 vb)) (hl : ∀ y, va.lookup y = vb.lookup y) : CleanSt (withVars rs fr fr0 va) := by
+  refine ⟨fun i y w hw => ?_, h.2⟩
+  refine h.1 i y w ?_
+  simp only [withVars, List.getD_eq_getElem?_getD, List.getElem?_set] at hw ⊢
+  by_cases hi : fr = i
+  · subst hi
+    by_cases hlt : fr < rs.frames.length
+    · simp only [hlt, if_true, Option.getD_some] at hw ⊢; rw [← hl y]; exact hw
+    · simp only [hlt, if_false, if_true] at hw ⊢; exact hw
+  · simp only [hi, if_false] at hw ⊢; exact hw
+
 theorem RelC.withVars_congr {s : St} {rs : Ref.St} {fr : Nat} {fr0 : Ref.Frame} {va vb : List (String × Val)} {env : Nat}
     (h : RelC s (withVars rs fr fr0 vb) env) (hfr : rs.frames[fr]? = some fr0)
     (hl : ∀ y, va.lookup y = vb.lookup y) : RelC s (withVars rs fr fr0 va) env :=
-  ⟨h.toRelCore.withVars_congr hfr hl, h.fnchain, h.globals.withVars_congr hl⟩
+  ⟨h.toRelCore.withVars_congr hfr hl, h.fnchain, h.globals.withVars_congr hl, h.clean.withVars_congr hl⟩
 
 /-- `let` with pairwise distinct names: the initialisers in the fresh scope, the bindings
 (popped in reverse order), the body, `removeScope`. -/
@@ -1459,7 +2122,7 @@ theorem cclaimE_letpar {n : Nat} (hB : CClaimB n) (hP : CClaimP n) {bs : List (S
   cases h1 : Ref.evalList n (bs.map (·.2)) rs.frames.length (Ref.newFrame rs env).2 with
   | ok vs rs2 =>
     rw [h1] at hL
-    obtain ⟨s2, r2, hfn2, hpc2, hdata2, rel2, ext2, fr2⟩ := hL
+    obtain ⟨s2, r2, hfn2, hpc2, hdata2, rel2, ext2, fr2, hcl2⟩ := hL
     simp only
     have hlen : vs.length = bs.length := by
       have := ref_evalList_length _ _ _ _ _ _ h1
@@ -1486,7 +2149,10 @@ theorem cclaimE_letpar {n : Nat} (hB : CClaimB n) (hP : CClaimP n) {bs : List (S
       intro p hp
       have hmem : p.1 ∈ bs.map (·.1) := (List.of_mem_zip (show (p.1, p.2) ∈ _ from List.mem_reverse.mp hp)).1
       exact fcBinds_names bs hbs p.1 hmem
-    have hvm := vm_defineAllC ((bs.map (·.1)).zip vs).reverse s2 rs2 rs.frames.length _ _ s.pushScope.data hokp hsegB
+    have hclp : ∀ p ∈ ((bs.map (·.1)).zip vs).reverse, Clean p.2 := by
+      intro p hp
+      exact hcl2 p.2 (List.of_mem_zip (show (p.1, p.2) ∈ _ from List.mem_reverse.mp hp)).2
+    have hvm := vm_defineAllC ((bs.map (·.1)).zip vs).reverse s2 rs2 rs.frames.length _ _ s.pushScope.data hokp hclp hsegB
       (by rw [hmapD]; exact hdata2) rel2
     have hlt2 := rel2.chain.lt
     obtain ⟨fr0, hfr0⟩ : ∃ fr0, rs2.frames[rs.frames.length]? = some fr0 := ⟨rs2.frames[rs.frames.length], by simp [hlt2]⟩
@@ -1511,10 +2177,8 @@ theorem cclaimE_letpar {n : Nat} (hB : CClaimB n) (hP : CClaimP n) {bs : List (S
         have ihb := hB body hbody hbl isFn _ gs1 (rb, gs2) hb hfn s3 a _ _ _ rel3a
           (hseg1.moved m3 (c₁ := ra.1 ++ (bs.map (fun p => Instr.popStackPutEnv p.1)).reverse) (c₂ := rb.1)
             (post' := [.removeScope] ++ post) (by simp) (by simp))
-        refine SimC.seq (r2.trans r3.toE) m3 (ext2.trans ext3a) (fr2.trans fr3) ihb ?_ ?_
-        · simp only [List.length_append, List.length_reverse, List.length_map, List.length_zip, hlen, Nat.min_self]
-          omega
-        · simp only [List.length_append, List.length_reverse, List.length_map]
+        refine SimC.seq (r2.trans r3.toX) m3 (ext2.trans ext3a) (fr2.trans fr3) ihb ?_
+        simp only [List.length_append, List.length_reverse, List.length_map]
       | none =>
         rw [hfwd, hbwd] at hrev
         exact hrev.elim
@@ -1526,31 +2190,30 @@ theorem cclaimE_letpar {n : Nat} (hB : CClaimB n) (hP : CClaimP n) {bs : List (S
       | none =>
         rw [hbwd] at hvm
         simp only
-        refine (FailsE.of_reach r2 hvm.toE).mono ?_
-        simp only [List.length_append, List.length_reverse, List.length_map, List.length_zip, hlen, Nat.min_self]
-        omega
-  | err rs2 => rw [h1] at hL; exact FailsE.mono hL (by lenarith)
+        exact FailsX.of_reach r2 hvm.toX
+  | err rs2 => rw [h1] at hL; exact hL
   | timeout => trivial
   | brk l rs2 => rw [h1] at hL; exact hL.elim
   | cont l rs2 => rw [h1] at hL; exact hL.elim
 
 
 theorem cclaimE_succ {n : Nat} (hE : CClaimE n) (hB : CClaimB n) (hC : CClaimC n) (hS : CClaimS n)
-    (hN : CClaimN n) (hL : CClaimL n) (hP : CClaimP n) (hA : CClaimA n) (hV : CClaimV n) : CClaimE (n + 1) := by
+    (hN : CClaimN n) (hL : CClaimL n) (hP : CClaimP n) (hA : CClaimA n) (hV : CClaimV n) (hF : CClaimF n) :
+    CClaimE (n + 1) := by
   intro e he isFn c gs r hc hfn s rs env pre post hrel hseg
   cases e with
   | int x =>
     rw [compile] at hc; simp only [g_pure_ok] at hc; subst hc
-    rw [Ref.eval]; exact simC_push _ hrel hseg
+    rw [Ref.eval]; exact simC_push _ trivial hrel hseg
   | bool x =>
     rw [compile] at hc; simp only [g_pure_ok] at hc; subst hc
-    rw [Ref.eval]; exact simC_push _ hrel hseg
+    rw [Ref.eval]; exact simC_push _ trivial hrel hseg
   | str x =>
     rw [compile] at hc; simp only [g_pure_ok] at hc; subst hc
-    rw [Ref.eval]; exact simC_push _ hrel hseg
+    rw [Ref.eval]; exact simC_push _ trivial hrel hseg
   | nilLit =>
     rw [compile] at hc; simp only [g_pure_ok] at hc; subst hc
-    rw [Ref.eval]; exact simC_push _ hrel hseg
+    rw [Ref.eval]; exact simC_push _ trivial hrel hseg
   | sym x =>
     rw [compile] at hc; simp only [g_pure_ok] at hc; subst hc
     exact simC_sym x n hrel hseg
@@ -1564,7 +2227,7 @@ theorem cclaimE_succ {n : Nat} (hE : CClaimE n) (hB : CClaimB n) (hC : CClaimC n
       | zero => rw [Ref.evalBegin]; trivial
       | succ m =>
         rw [Ref.evalBegin]
-        · exact simC_push _ hrel hseg
+        · exact simC_push _ trivial hrel hseg
         · omega
     | cons e0 es0 =>
       rw [compile] at hc
@@ -1583,9 +2246,9 @@ theorem cclaimE_succ {n : Nat} (hE : CClaimE n) (hB : CClaimB n) (hC : CClaimC n
     cases h1 : Ref.eval n e1 env rs with
     | ok v rs1 =>
       rw [h1] at ih
-      obtain ⟨s1, r1, l1, rel1, ext1, fr1⟩ := ih
-      exact simC_def_tail hseg he.1 r1 l1 rel1 ext1 fr1
-    | err rs1 => rw [h1] at ih; exact SimC.prefix ih (fun _ _ hh => by cases hh) (by lenarith)
+      obtain ⟨s1, r1, l1, rel1, ext1, fr1, hcl1⟩ := ih
+      exact simC_def_tail hseg he.1 r1 l1 rel1 ext1 fr1 hcl1
+    | err rs1 => rw [h1] at ih; exact SimC.prefix ih (fun _ _ hh => by cases hh)
     | timeout => trivial
     | brk l rs1 => rw [h1] at ih; exact ih.elim
     | cont l rs1 => rw [h1] at ih; exact ih.elim
@@ -1601,9 +2264,9 @@ theorem cclaimE_succ {n : Nat} (hE : CClaimE n) (hB : CClaimB n) (hC : CClaimC n
     cases h1 : Ref.eval n e1 env rs with
     | ok v rs1 =>
       rw [h1] at ih
-      obtain ⟨s1, r1, l1, rel1, ext1, fr1⟩ := ih
-      exact simC_set_tail hseg he.1 r1 l1 rel1 ext1 fr1
-    | err rs1 => rw [h1] at ih; exact SimC.prefix ih (fun _ _ hh => by cases hh) (by lenarith)
+      obtain ⟨s1, r1, l1, rel1, ext1, fr1, hcl1⟩ := ih
+      exact simC_set_tail hseg he.1 r1 l1 rel1 ext1 fr1 hcl1
+    | err rs1 => rw [h1] at ih; exact SimC.prefix ih (fun _ _ hh => by cases hh)
     | timeout => trivial
     | brk l rs1 => rw [h1] at ih; exact ih.elim
     | cont l rs1 => rw [h1] at ih; exact ih.elim
@@ -1672,8 +2335,8 @@ theorem cclaimE_succ {n : Nat} (hE : CClaimE n) (hB : CClaimB n) (hC : CClaimC n
       obtain ⟨s2, r2, m2, rel2, ext2, fr2⟩ := hU
       have ihb := hB body hbody hbl isFn _ gs1 (rb, gs2) hb hfn s2 rs2 _ _ _ rel2
         (hseg1.moved m2 (c₁ := ra.1) (c₂ := rb.1) (post' := [.removeScope] ++ post) (by simp) rfl)
-      exact SimC.seq r2 m2 ext2 fr2 ihb (by lenarith) (by lenarith)
-    | err rs2 => rw [h1] at hU; exact FailsE.mono hU (by lenarith)
+      exact SimC.seq r2 m2 ext2 fr2 ihb (by lenarith)
+    | err rs2 => rw [h1] at hU; exact hU
     | timeout => trivial
     | brk l rs2 => rw [h1] at hU; exact hU.elim
     | cont l rs2 => rw [h1] at hU; exact hU.elim
@@ -1688,12 +2351,16 @@ theorem cclaimE_succ {n : Nat} (hE : CClaimE n) (hB : CClaimB n) (hC : CClaimC n
     cases h1 : Ref.evalList n es env rs with
     | ok vs rs1 =>
       rw [h1] at ih
-      obtain ⟨s1, r1, hfn1, hpc1, hd1, rel1, ext1, fr1⟩ := ih
-      exact simC_arr_tail hseg (ref_evalList_length _ _ _ _ _ _ h1).symm r1 hfn1 hpc1 hd1 rel1 ext1 fr1
-    | err rs1 => rw [h1] at ih; exact FailsE.mono ih (by lenarith)
+      obtain ⟨s1, r1, hfn1, hpc1, hd1, rel1, ext1, fr1, hclvs⟩ := ih
+      exact simC_arr_tail hseg (ref_evalList_length _ _ _ _ _ _ h1).symm r1 hfn1 hpc1 hd1 rel1 ext1 fr1 hclvs
+    | err rs1 => rw [h1] at ih; exact ih
     | timeout => trivial
     | brk l rs1 => rw [h1] at ih; exact ih.elim
     | cont l rs1 => rw [h1] at ih; exact ih.elim
+  | for_ label init test incr body =>
+    rw [Fc] at he
+    simp only [Bool.and_eq_true] at he
+    exact cclaimE_for hE hF he.1.1.1 he.1.1.2 he.1.2 he.2 isFn c gs r hc hfn s rs env pre post hrel hseg
   | call f args =>
     cases f with
     | sym h =>
@@ -1716,8 +2383,8 @@ theorem cclaimE_succ {n : Nat} (hE : CClaimE n) (hB : CClaimB n) (hC : CClaimC n
 /-! ## The induction -/
 
 theorem cclaims_zero : CClaimE 0 ∧ CClaimB 0 ∧ CClaimC 0 ∧ CClaimS 0 ∧ CClaimN 0 ∧ CClaimL 0 ∧ CClaimP 0 ∧ CClaimA 0
-    ∧ CClaimV 0 := by
-  refine ⟨?_, ?_, ?_, ?_, ?_, ?_, ?_, ?_, ?_⟩
+    ∧ CClaimV 0 ∧ CClaimF 0 := by
+  refine ⟨?_, ?_, ?_, ?_, ?_, ?_, ?_, ?_, ?_, ?_⟩
   · intro e _ isFn c gs r _ _ s rs env pre post _ _
     rw [Ref.eval]; trivial
   · intro es _ _ isFn c gs r _ _ s rs env pre post _ _
@@ -1736,14 +2403,17 @@ theorem cclaims_zero : CClaimE 0 ∧ CClaimB 0 ∧ CClaimC 0 ∧ CClaimS 0 ∧ C
     rw [Ref.evalArgs]; trivial
   · intro es _ isFn c gs r _ _ s rs env pre post _ _
     rw [Ref.evalList]; trivial
+  · intro label test incr body _ _ _ isFn c gb rb g2 gt rt g4 gi ri g5 _ _ _ _ L ci pre post σ rs fr D _ _ _ _
+    rw [Ref.loop]; trivial
 
 theorem cclaims : ∀ n, CClaimE n ∧ CClaimB n ∧ CClaimC n ∧ CClaimS n ∧ CClaimN n ∧ CClaimL n ∧ CClaimP n ∧ CClaimA n
-    ∧ CClaimV n
+    ∧ CClaimV n ∧ CClaimF n
   | 0 => cclaims_zero
   | n + 1 => by
-    obtain ⟨hE, hB, hC, hS, hN, hL, hP, hA, hV⟩ := cclaims n
-    exact ⟨cclaimE_succ hE hB hC hS hN hL hP hA hV, cclaimB_succ hE hB, cclaimC_succ hE hC, cclaimS_succ hE hS,
-      cclaimN_succ hE hN, cclaimL_succ hE hL, cclaimP_succ hE hP, cclaimA_succ hE hA, cclaimV_succ hE hV⟩
+    obtain ⟨hE, hB, hC, hS, hN, hL, hP, hA, hV, hF⟩ := cclaims n
+    exact ⟨cclaimE_succ hE hB hC hS hN hL hP hA hV hF, cclaimB_succ hE hB, cclaimC_succ hE hC, cclaimS_succ hE hS,
+      cclaimN_succ hE hN, cclaimL_succ hE hL, cclaimP_succ hE hP, cclaimA_succ hE hA, cclaimV_succ hE hV,
+      cclaimF_succ hE hB hF⟩
 
 /-- **Segment lemma for Fc** (Fv with binder names that are not builtin names, plus calls of
 first-order builtins with operands in Fc). From related states (`RelC`), the VM on the first
